@@ -1,24 +1,22 @@
 (** * C07 - "every signal has one driver" on the elaborated emitted design.
 
     [single_driver d]: for every signal the sets of scalar sub-elements assigned by different
-    concurrent statements / processes of [d_conc] are pairwise disjoint (whole = all scalars,
-    static slice / static index = those scalars, run-time index = all scalars of the indexed
-    object), no [in] port is assigned, and every process variable is referenced only inside
-    the process that declares it.
+    concurrent statements / processes of [d_conc] are pairwise disjoint (whole object = all of
+    its scalars, static slice / static index = those scalars, run-time index = all scalars of
+    the indexed object), every assigned name is a declared signal that is not an [in] port, and
+    every process variable is referenced only inside the process that declares it.
 
-    Soundness against [Sem] is proved in the second half of the file. *)
-From Coq Require Import ZArith NArith PArith List Bool Lia.
+    Disjointness is decided structurally on the target paths ([sel_disjoint]): two paths are
+    disjoint if they select different static elements at some level, or - on the last level of
+    a vector - a static element outside a static slice or two non-overlapping static slices.
+
+    The second half of the file proves soundness against [Sem]: the result of one delta cycle
+    does not depend on the order of the concurrent statements ([single_driver_sound]). *)
+From Coq Require Import ZArith NArith PArith List Bool Lia Permutation.
 From Cohdl Require Import Base.Bits Vhdl.Value Vhdl.NumStd Vhdl.Syntax Vhdl.Sem.
 Import ListNotations.
 
-(** ** static footprint of an assignment target *)
-
-Fixpoint ty_size (t : ty) : N :=
-  match t with
-  | TVec _ w => w
-  | TArr _ n e => n * ty_size e
-  | _ => 1
-  end.
+(** ** static disjointness of assignment targets *)
 
 Definition static_index (e : expr) : option N :=
   match e with
@@ -28,30 +26,32 @@ Definition static_index (e : expr) : option N :=
 
 Definition is_nil {A} (l : list A) : bool := match l with [] => true | _ => false end.
 
-(** scalar interval [(start, length)] touched by [path] inside an object of type [t] whose
-    first scalar has number [base]; anything not statically known is the whole object *)
-Fixpoint path_range (t : ty) (base : N) (p : list sel) : N * N :=
-  match p with
-  | [] => (base, ty_size t)
-  | SelIdx i :: r =>
-      match t, static_index i with
-      | TVec _ w, Some k => if (k <? w)%N && is_nil r then ((base + k)%N, 1%N) else (base, ty_size t)
-      | TArr _ n e, Some k => if (k <? n)%N then path_range e (base + k * ty_size e)%N r else (base, ty_size t)
-      | _, _ => (base, ty_size t)
+Fixpoint sel_disjoint (p q : list sel) : bool :=
+  match p, q with
+  | SelIdx i :: p', SelIdx j :: q' =>
+      match static_index i, static_index j with
+      | Some n, Some m => if (n =? m)%N then sel_disjoint p' q' else true
+      | _, _ => false
       end
-  | SelSlice hi lo :: r =>
-      match t with
-      | TVec _ w => if (lo <=? hi)%N && (hi <? w)%N && is_nil r then ((base + lo)%N, (hi - lo + 1)%N) else (base, ty_size t)
-      | _ => (base, ty_size t)
+  | SelIdx i :: p', SelSlice hi lo :: q' =>
+      match static_index i with
+      | Some n => is_nil p' && is_nil q' && ((n <? lo) || (hi <? n))%N
+      | None => false
       end
+  | SelSlice hi lo :: p', SelIdx j :: q' =>
+      match static_index j with
+      | Some m => is_nil p' && is_nil q' && ((m <? lo) || (hi <? m))%N
+      | None => false
+      end
+  | SelSlice hi lo :: p', SelSlice hi' lo' :: q' => is_nil p' && is_nil q' && ((hi <? lo') || (hi' <? lo))%N
+  | _, _ => false
   end.
-
-Definition ranges_disjoint (a b : N * N) : bool :=
-  ((fst a + snd a <=? fst b) || (fst b + snd b <=? fst a))%N.
 
 (** ** the assignments of a concurrent statement *)
 
-Fixpoint stmt_writes (s : stmt) (acc : list (positive * list sel)) : list (positive * list sel) :=
+Definition swrite := (positive * list sel)%type.
+
+Fixpoint stmt_writes (s : stmt) (acc : list swrite) : list swrite :=
   match s with
   | SSig r p _ => (r, p) :: acc
   | SIf _ a b => stmt_writes a (stmt_writes b acc)
@@ -59,46 +59,25 @@ Fixpoint stmt_writes (s : stmt) (acc : list (positive * list sel)) : list (posit
   | SSeq a b => stmt_writes a (stmt_writes b acc)
   | SNull | SVar _ _ _ | SAssert _ => acc
   end
-with arms_writes (a : arms) (acc : list (positive * list sel)) : list (positive * list sel) :=
+with arms_writes (a : arms) (acc : list swrite) : list swrite :=
   match a with
   | ANil None => acc
   | ANil (Some s) => stmt_writes s acc
   | ACons _ s r => stmt_writes s (arms_writes r acc)
   end.
 
-Definition conc_writes (c : conc) : list (positive * list sel) :=
+Definition conc_writes (c : conc) : list swrite :=
   match c with
   | CAssign r p _ => [(r, p)]
   | CSelect r p _ _ _ => [(r, p)]
   | CProc _ _ b => stmt_writes b []
   end.
 
-Definition sig_decl (d : design) (x : positive) : option sigdecl :=
-  List.find (fun sd => Pos.eqb sd.(sd_id) x) d.(d_sigs).
+Definition sw_disjoint (a b : swrite) : bool :=
+  negb (Pos.eqb (fst a) (fst b)) || sel_disjoint (snd a) (snd b).
 
-Record target := { t_root : positive; t_range : N * N; t_dir : dir }.
-
-Definition target_of (d : design) (w : positive * list sel) : option target :=
-  match sig_decl d (fst w) with
-  | Some sd => Some {| t_root := fst w; t_range := path_range sd.(sd_ty) 0 (snd w); t_dir := sd.(sd_dir) |}
-  | None => None
-  end.
-
-Fixpoint all_some {A} (l : list (option A)) : option (list A) :=
-  match l with
-  | [] => Some []
-  | None :: _ => None
-  | Some x :: r => match all_some r with Some r' => Some (x :: r') | None => None end
-  end.
-
-Definition conc_targets (d : design) (c : conc) : option (list target) :=
-  all_some (map (target_of d) (conc_writes c)).
-
-Definition targets_disjoint (a b : target) : bool :=
-  negb (Pos.eqb a.(t_root) b.(t_root)) || ranges_disjoint a.(t_range) b.(t_range).
-
-Definition stmts_disjoint (ta tb : list target) : bool :=
-  forallb (fun a => forallb (targets_disjoint a) tb) ta.
+Definition stmts_disjoint (wa wb : list swrite) : bool :=
+  forallb (fun a => forallb (sw_disjoint a) wb) wa.
 
 Fixpoint pairwise {A} (p : A -> A -> bool) (l : list A) : bool :=
   match l with
@@ -106,7 +85,20 @@ Fixpoint pairwise {A} (p : A -> A -> bool) (l : list A) : bool :=
   | x :: r => forallb (p x) r && pairwise p r
   end.
 
-Definition not_in_port (t : target) : bool := match t.(t_dir) with DIn => false | _ => true end.
+Definition drivers_disjoint (d : design) : bool := pairwise stmts_disjoint (map conc_writes d.(d_conc)).
+
+Definition sig_decl (d : design) (x : positive) : option sigdecl :=
+  List.find (fun sd => Pos.eqb sd.(sd_id) x) d.(d_sigs).
+
+(** every assigned name is a declared signal and no [in] port *)
+Definition assignable (d : design) (w : swrite) : bool :=
+  match sig_decl d (fst w) with
+  | Some sd => match sd.(sd_dir) with DIn => false | _ => true end
+  | None => false
+  end.
+
+Definition no_in_port_assigned (d : design) : bool :=
+  forallb (fun c => forallb (assignable d) (conc_writes c)) d.(d_conc).
 
 (** ** variables stay inside their process *)
 
@@ -150,60 +142,296 @@ Definition var_proc (d : design) (x : positive) : option positive :=
   | None => None
   end.
 
+(** the variables a concurrent statement refers to *)
+Definition conc_vars (c : conc) : list positive :=
+  match c with
+  | CAssign _ p e => path_vars p (expr_vars e [])
+  | CSelect _ p s alts others =>
+      path_vars p (expr_vars s
+        (fold_right (fun a acc => expr_vars (snd a) acc)
+                    (match others with Some e => expr_vars e [] | None => [] end) alts))
+  | CProc _ _ body => stmt_vars body []
+  end.
+
 Definition conc_vars_local (d : design) (c : conc) : bool :=
   match c with
-  | CAssign _ p e => is_nil (path_vars p (expr_vars e []))
-  | CSelect _ p s alts others =>
-      is_nil (path_vars p (expr_vars s
-        (fold_right (fun a acc => expr_vars (snd a) acc)
-                    (match others with Some e => expr_vars e [] | None => [] end) alts)))
-  | CProc lbl _ body =>
-      forallb (fun x => match var_proc d x with Some l => Pos.eqb l lbl | None => false end) (stmt_vars body [])
+  | CProc lbl _ _ =>
+      forallb (fun x => match var_proc d x with Some l => Pos.eqb l lbl | None => false end) (conc_vars c)
+  | _ => is_nil (conc_vars c)
   end.
 
 Definition vars_local (d : design) : bool := forallb (conc_vars_local d) d.(d_conc).
 
 (** process labels are the identity of a process: two processes never share one *)
-Definition proc_labels (d : design) : list positive :=
-  flat_map (fun c => match c with CProc l _ _ => [l] | _ => [] end) d.(d_conc).
+Definition same_label (a b : conc) : bool :=
+  match a, b with
+  | CProc l _ _, CProc l' _ _ => Pos.eqb l l'
+  | _, _ => false
+  end.
 
 Definition labels_distinct (d : design) : bool :=
-  pairwise (fun a b => negb (Pos.eqb a b)) (proc_labels d).
+  pairwise (fun a b => negb (same_label a b)) d.(d_conc).
 
 (** ** the check *)
 
-Definition drivers_disjoint (d : design) : bool :=
-  match all_some (map (conc_targets d) d.(d_conc)) with
-  | Some ts => pairwise stmts_disjoint ts && forallb (forallb not_in_port) ts
-  | None => false
-  end.
-
 Definition single_driver (d : design) : bool :=
-  drivers_disjoint d && vars_local d && labels_distinct d.
+  drivers_disjoint d && no_in_port_assigned d && vars_local d && labels_distinct d.
+
+(** root-level strengthening: no two statements assign the same SIGNAL (coverage statistic) *)
+Definition conc_roots (c : conc) : list positive := map fst (conc_writes c).
+Definition pmem (x : positive) (l : list positive) : bool := existsb (Pos.eqb x) l.
+Definition lists_disjoint (a b : list positive) : bool := forallb (fun x => negb (pmem x b)) a.
+Definition single_driver_roots (d : design) : bool := pairwise lists_disjoint (map conc_roots d.(d_conc)).
 
 (** diagnosis: indices (0-based, in [d_conc] order) of two statements that drive a common scalar *)
-Fixpoint first_clash (i : nat) (ts : list (list target)) : option (nat * nat) :=
+Fixpoint first_clash (i : nat) (ts : list (list swrite)) : option (nat * nat) :=
   match ts with
   | [] => None
   | x :: r =>
-      (fix scan (j : nat) (l : list (list target)) : option (nat * nat) :=
+      (fix scan (j : nat) (l : list (list swrite)) : option (nat * nat) :=
          match l with
          | [] => first_clash (S i) r
          | y :: l' => if stmts_disjoint x y then scan (S j) l' else Some (i, j)
          end) (S i) r
   end.
 
-(** * Soundness against [Sem]: the order of the concurrent statements does not matter
+(** * Bit-level facts: writes to disjoint ranges of a vector commute *)
+Section BitFacts.
+Local Open Scope Z_scope.
+Lemma pow2_split a b : (a <= b)%N -> pow2 b = pow2 a * pow2 (b - a).
+Proof. intros H. rewrite <- pow2_add. f_equal. lia. Qed.
 
-    [Sem.delta] runs the triggered statements in the order of [d_conc], concatenates their
-    write lists in that order and hands them to [Sem.commit].  We prove that the result of
-    [commit] is the same for every order of the per-statement write lists as long as no two
-    statements assign the same signal ([commit_perm]: the two-statement swap lemma
-    [commit_swap_blocks], lifted to arbitrary permutations through adjacent transpositions),
-    and that the writes a statement can produce stay inside its static footprint
-    ([run_conc_roots]).  Results are compared up to [PM.Equal] (extensional equality of the
-    stores); two runs that both end in a run-time error are identified. *)
-From Coq Require Import Permutation.
+Lemma pow2_nz w : pow2 w <> 0.
+Proof. pose proof (pow2_pos w). lia. Qed.
+
+Lemma setslice_as_add v lo len x :
+  setslice v lo len x = v + ((x mod pow2 len) - getslice v lo len) * pow2 lo.
+Proof. unfold setslice. ring. Qed.
+
+(** a write above does not change a slice below *)
+Lemma getslice_setslice_low v lo1 n1 lo2 n2 y : (lo1 + n1 <= lo2)%N ->
+  getslice (setslice v lo2 n2 y) lo1 n1 = getslice v lo1 n1.
+Proof.
+  intros H. rewrite setslice_as_add. set (K := y mod pow2 n2 - getslice v lo2 n2).
+  unfold getslice.
+  rewrite (pow2_split (lo1 + n1) lo2 H), pow2_add.
+  replace (v + K * (pow2 lo1 * pow2 n1 * pow2 (lo2 - (lo1 + n1))))
+    with (v + (K * pow2 (lo2 - (lo1 + n1)) * pow2 n1) * pow2 lo1) by ring.
+  rewrite Z.div_add by apply pow2_nz.
+  rewrite Z.mod_add by apply pow2_nz. reflexivity.
+Qed.
+
+(** a write below does not change a slice above *)
+Lemma div_setslice_low v lo1 n1 x : setslice v lo1 n1 x / pow2 (lo1 + n1) = v / pow2 (lo1 + n1).
+Proof.
+  rewrite pow2_add. unfold setslice, getslice.
+  pose proof (pow2_pos lo1) as HA. pose proof (pow2_pos n1) as HB.
+  set (A := pow2 lo1) in *. set (B := pow2 n1) in *.
+  rewrite <- (Z.div_div v A B) by lia.
+  pose proof (Z.div_mod v A ltac:(lia)) as E1. pose proof (Z.mod_pos_bound v A HA) as R1.
+  pose proof (Z.div_mod (v / A) B ltac:(lia)) as E2. pose proof (Z.mod_pos_bound (v / A) B HB) as R2.
+  pose proof (Z.mod_pos_bound x B HB) as R3.
+  set (s := v / A / B) in *. set (t := (v / A) mod B) in *. set (r := v mod A) in *. set (x' := x mod B) in *.
+  symmetry. apply (Z.div_unique_pos _ _ s (A * x' + r)).
+  - split; [nia|]. nia.
+  - rewrite E1 at 1. rewrite E2. ring.
+Qed.
+
+Lemma getslice_setslice_high v lo1 n1 x lo2 n2 : (lo1 + n1 <= lo2)%N ->
+  getslice (setslice v lo1 n1 x) lo2 n2 = getslice v lo2 n2.
+Proof.
+  intros H. unfold getslice.
+  rewrite (pow2_split (lo1 + n1) lo2 H).
+  rewrite <- !Z.div_div by (try apply pow2_nz; apply pow2_pos).
+  rewrite div_setslice_low. reflexivity.
+Qed.
+
+Lemma setslice_comm_lt v lo1 n1 x lo2 n2 y : (lo1 + n1 <= lo2)%N ->
+  setslice (setslice v lo1 n1 x) lo2 n2 y = setslice (setslice v lo2 n2 y) lo1 n1 x.
+Proof.
+  intros H. rewrite (setslice_as_add (setslice v lo1 n1 x)), (setslice_as_add (setslice v lo2 n2 y)).
+  rewrite getslice_setslice_high by exact H. rewrite getslice_setslice_low by exact H.
+  rewrite !setslice_as_add. ring.
+Qed.
+
+Lemma setslice_comm v lo1 n1 x lo2 n2 y : (lo1 + n1 <= lo2 \/ lo2 + n2 <= lo1)%N ->
+  setslice (setslice v lo1 n1 x) lo2 n2 y = setslice (setslice v lo2 n2 y) lo1 n1 x.
+Proof. intros [H|H]; [apply setslice_comm_lt, H | symmetry; apply setslice_comm_lt, H]. Qed.
+
+End BitFacts.
+
+Lemma nth_error_list_set_eq {A} (l : list A) n a b :
+  nth_error l n = Some a -> nth_error (list_set l n b) n = Some b.
+Proof. revert n. induction l as [|y l IH]; intros [|n] H; simpl in *; try discriminate; auto. Qed.
+
+Lemma nth_error_list_set_neq {A} (l : list A) n m b :
+  n <> m -> nth_error (list_set l n b) m = nth_error l m.
+Proof.
+  revert n m. induction l as [|y l IH]; intros [|n] [|m] H; simpl; auto; try congruence.
+Qed.
+
+Lemma list_set_twice {A} (l : list A) n a b : list_set (list_set l n a) n b = list_set l n b.
+Proof. revert n. induction l as [|y l IH]; intros [|n]; simpl; auto. f_equal. apply IH. Qed.
+
+Lemma list_set_comm {A} (l : list A) n m a b : n <> m ->
+  list_set (list_set l n a) m b = list_set (list_set l m b) n a.
+Proof.
+  revert n m. induction l as [|y l IH]; intros [|n] [|m] H; simpl; auto; try congruence.
+  f_equal. apply IH. congruence.
+Qed.
+
+(** ** disjointness of resolved paths *)
+Fixpoint rp_disjoint (p q : list rsel) : bool :=
+  match p, q with
+  | RIdx n :: p', RIdx m :: q' => if (n =? m)%N then rp_disjoint p' q' else true
+  | RIdx n :: p', RSlice hi lo :: q' => is_nil p' && is_nil q' && ((n <? lo) || (hi <? n))%N
+  | RSlice hi lo :: p', RIdx m :: q' => is_nil p' && is_nil q' && ((m <? lo) || (hi <? m))%N
+  | RSlice hi lo :: p', RSlice hi' lo' :: q' => is_nil p' && is_nil q' && ((hi <? lo') || (hi' <? lo))%N
+  | _, _ => false
+  end.
+
+Lemma rp_disjoint_sym p : forall q, rp_disjoint p q = rp_disjoint q p.
+Proof.
+  induction p as [|[n|hi lo] p IH]; intros [|[m|hi' lo'] q]; simpl; auto.
+  - rewrite N.eqb_sym. destruct (m =? n)%N; auto.
+  - rewrite (andb_comm (is_nil p)). reflexivity.
+  - rewrite (andb_comm (is_nil p)). reflexivity.
+  - rewrite (andb_comm (is_nil p)), (orb_comm (hi <? lo')%N). reflexivity.
+Qed.
+
+Lemma rp_disjoint_nonnil p q : rp_disjoint p q = true -> p <> [] /\ q <> [].
+Proof. destruct p as [|[]], q as [|[]]; simpl; try discriminate; intros _; split; discriminate. Qed.
+
+(** ** writes into a vector: a plan (range, bits) that does not depend on the old bits *)
+Definition vv_plan (k : vkind) (w : N) (p : list rsel) (x : value) : res (N * N * Z) :=
+  match p, x with
+  | [RIdx n], VL b => if (n <? w)%N then Ok (n, 1%N, if b then 1%Z else 0%Z) else Err ERange
+  | [RSlice hi lo], VV k' w' v' =>
+      if negb (vkind_eqb k k') then Err ETypeError
+      else if negb ((lo <=? hi)%N && (hi <? w)%N) then Err ERange
+      else if negb (w' =? hi - lo + 1)%N then Err EWidth
+      else Ok (lo, w', v')
+  | _, _ => Err ETypeError
+  end.
+
+Lemma aw_vv k w v p x : p <> [] ->
+  apply_write (VV k w v) p x =
+  match vv_plan k w p x with
+  | Ok (lo, len, z) => Ok (VV k w (setslice v lo len z))
+  | Err e => Err e
+  end.
+Proof.
+  intros Hp. destruct p as [|[n|hi lo] [|s r]]; try congruence; destruct x; simpl; try reflexivity.
+  - destruct (n <? w)%N; reflexivity.
+  - destruct (negb (vkind_eqb k k0)); [reflexivity|].
+    destruct (negb ((lo <=? hi)%N && (hi <? w)%N)); [reflexivity|].
+    destruct (negb (w0 =? hi - lo + 1)%N); reflexivity.
+Qed.
+
+Lemma plan_disjoint k w p q x y lo1 n1 z1 lo2 n2 z2 :
+  rp_disjoint p q = true ->
+  vv_plan k w p x = Ok (lo1, n1, z1) -> vv_plan k w q y = Ok (lo2, n2, z2) ->
+  (lo1 + n1 <= lo2 \/ lo2 + n2 <= lo1)%N.
+Proof.
+  intros D P Q.
+  destruct p as [|[n|hi lo] [|s r]]; destruct x; simpl in P; try discriminate;
+  destruct q as [|[m|hi' lo'] [|s' r']]; destruct y; simpl in Q; try discriminate; simpl in D; try discriminate.
+  all: repeat match goal with
+       | H : (if ?c then _ else _) = Ok _ |- _ => destruct c eqn:?; try discriminate
+       end.
+  all: inversion P; inversion Q; subst; clear P Q.
+  all: repeat match goal with
+       | H : negb _ = false |- _ => apply negb_false_iff in H
+       | H : (_ && _)%bool = true |- _ => apply andb_prop in H; destruct H
+       end.
+  all: repeat match goal with
+       | H : (_ =? _)%N = true |- _ => apply N.eqb_eq in H
+       | H : (_ =? _)%N = false |- _ => apply N.eqb_neq in H
+       | H : (_ <=? _)%N = true |- _ => apply N.leb_le in H
+       | H : (_ <? _)%N = true |- _ => apply N.ltb_lt in H
+       | H : (_ || _)%bool = true |- _ => apply orb_prop in H; destruct H
+       end; try lia.
+  destruct (lo1 =? lo2)%N eqn:E; [discriminate|]. apply N.eqb_neq in E. lia.
+Qed.
+
+Definition comm_spec (base : value) (p : list rsel) (x : value) (q : list rsel) (y : value) : Prop :=
+  match apply_write base p x, apply_write base q y with
+  | Ok b1, Ok b2 => exists b, apply_write b1 q y = Ok b /\ apply_write b2 p x = Ok b
+  | Err _, Ok b2 => exists e, apply_write b2 p x = Err e
+  | Ok b1, Err _ => exists e, apply_write b1 q y = Err e
+  | Err _, Err _ => True
+  end.
+
+Lemma aw_comm_vv k w v p q x y : rp_disjoint p q = true -> comm_spec (VV k w v) p x q y.
+Proof.
+  intros D. destruct (rp_disjoint_nonnil _ _ D) as [Hp Hq]. unfold comm_spec.
+  rewrite (aw_vv k w v p x Hp), (aw_vv k w v q y Hq).
+  destruct (vv_plan k w p x) as [[[lo1 n1] z1]|e1] eqn:P; destruct (vv_plan k w q y) as [[[lo2 n2] z2]|e2] eqn:Q.
+  - exists (VV k w (setslice (setslice v lo1 n1 z1) lo2 n2 z2)).
+    rewrite (aw_vv k w _ q y Hq), Q, (aw_vv k w _ p x Hp), P. split; [reflexivity|].
+    f_equal. f_equal. symmetry. apply setslice_comm. eapply plan_disjoint; eauto.
+  - exists e2. rewrite (aw_vv k w _ q y Hq), Q. reflexivity.
+  - exists e1. rewrite (aw_vv k w _ p x Hp), P. reflexivity.
+  - exact I.
+Qed.
+
+Definition is_scalar (v : value) : bool := match v with VV _ _ _ | VA _ => false | _ => true end.
+
+Lemma aw_scalar base p x : is_scalar base = true -> p <> [] -> exists e, apply_write base p x = Err e.
+Proof.
+  intros S Hp. destruct p as [|[n|hi lo] r]; [congruence| |]; destruct base; try discriminate; simpl; eexists; reflexivity.
+Qed.
+
+Lemma aw_comm : forall p q base x y, rp_disjoint p q = true -> comm_spec base p x q y.
+Proof.
+  induction p as [|s p IH]; intros q base x y D; [discriminate|].
+  destruct (rp_disjoint_nonnil _ _ D) as [Hp Hq].
+  destruct (is_scalar base) eqn:S.
+  { unfold comm_spec. destruct (aw_scalar base (s :: p) x S Hp) as [e1 ->].
+    destruct (aw_scalar base q y S Hq) as [e2 ->]. exact I. }
+  destruct base as [| k w v | | | | l]; try discriminate; [apply aw_comm_vv, D|].
+  destruct s as [n|hi lo]; destruct q as [|[m|hi' lo'] q']; simpl in D; try discriminate.
+  - (* element / element *)
+    destruct (n =? m)%N eqn:E.
+    + apply N.eqb_eq in E. subst m. unfold comm_spec. cbn [apply_write].
+      destruct (nth_error l (N.to_nat n)) as [el|] eqn:Hn; [|exact I].
+      specialize (IH q' el x y D). unfold comm_spec in IH.
+      destruct (apply_write el p x) as [e1|] eqn:A1; destruct (apply_write el q' y) as [e2|] eqn:A2; simpl.
+      * destruct IH as (b & H1 & H2). exists (VA (list_set l (N.to_nat n) b)).
+        cbn [apply_write]. rewrite !(nth_error_list_set_eq l _ el) by exact Hn. rewrite H1, H2. simpl.
+        rewrite !list_set_twice. split; reflexivity.
+      * destruct IH as (e0 & H1). exists e0. cbn [apply_write].
+        rewrite (nth_error_list_set_eq l _ el) by exact Hn. rewrite H1. reflexivity.
+      * destruct IH as (e0 & H1). exists e0. cbn [apply_write].
+        rewrite (nth_error_list_set_eq l _ el) by exact Hn. rewrite H1. reflexivity.
+      * exact I.
+    + apply N.eqb_neq in E.
+      assert (N1 : N.to_nat n <> N.to_nat m) by lia. assert (N2 : N.to_nat m <> N.to_nat n) by lia.
+      unfold comm_spec. cbn [apply_write].
+      destruct (nth_error l (N.to_nat n)) as [el1|] eqn:H1; destruct (nth_error l (N.to_nat m)) as [el2|] eqn:H2.
+      * destruct (apply_write el1 p x) as [e1|] eqn:A1; destruct (apply_write el2 q' y) as [e2|] eqn:A2; simpl.
+        -- exists (VA (list_set (list_set l (N.to_nat n) e1) (N.to_nat m) e2)). cbn [apply_write].
+           rewrite (nth_error_list_set_neq l _ _ e1 N1), (nth_error_list_set_neq l _ _ e2 N2), H1, H2, A1, A2. simpl.
+           split; [reflexivity|]. rewrite (list_set_comm l _ _ e1 e2 N1). reflexivity.
+        -- eexists. cbn [apply_write]. rewrite (nth_error_list_set_neq l _ _ e1 N1), H2, A2. reflexivity.
+        -- eexists. cbn [apply_write]. rewrite (nth_error_list_set_neq l _ _ e2 N2), H1, A1. reflexivity.
+        -- exact I.
+      * destruct (apply_write el1 p x) as [e1|] eqn:A1; simpl; [|exact I].
+        eexists. cbn [apply_write]. rewrite (nth_error_list_set_neq l _ _ e1 N1), H2. reflexivity.
+      * destruct (apply_write el2 q' y) as [e2|] eqn:A2; simpl; [|exact I].
+        eexists. cbn [apply_write]. rewrite (nth_error_list_set_neq l _ _ e2 N2), H1. reflexivity.
+      * exact I.
+  - (* element / slice: a slice of an array is a type error, before and after *)
+    unfold comm_spec. cbn [apply_write].
+    destruct (nth_error l (N.to_nat n)) as [el|]; [|exact I].
+    destruct (apply_write el p x); simpl; [|exact I]. eexists. reflexivity.
+  - unfold comm_spec. cbn [apply_write].
+    destruct (nth_error l (N.to_nat m)) as [el|]; [|exact I].
+    destruct (apply_write el q' y); simpl; [|exact I]. eexists. reflexivity.
+  - unfold comm_spec. cbn [apply_write]. exact I.
+Qed.
+
+(** * Soundness against [Sem] *)
 
 Definition res_equiv (a b : res store) : Prop :=
   match a, b with
@@ -243,6 +471,12 @@ Proof.
     + rewrite !(PM.gso _ _ Ny). rewrite (PM.gso _ _ Nx). reflexivity.
 Qed.
 
+Lemma add_add s x (v w : value) : PM.Equal (PM.add x v (PM.add x w s)) (PM.add x v s).
+Proof.
+  intros z. destruct (Pos.eq_dec z x) as [E|N]; [subst z; rewrite !PM.gss; reflexivity|].
+  rewrite !(PM.gso _ _ N). reflexivity.
+Qed.
+
 Lemma commit_equal ws : forall s s', PM.Equal s s' -> res_equiv (commit s ws) (commit s' ws).
 Proof.
   induction ws as [|[[root rp] x] ws IH]; intros s s' H; simpl.
@@ -253,6 +487,7 @@ Proof.
 Qed.
 
 Definition wroot (w : write) : positive := fst (fst w).
+Definition wpath (w : write) : list rsel := snd (fst w).
 
 Lemma commit_cons r p x ws s :
   commit s ((r, p, x) :: ws) =
@@ -262,7 +497,7 @@ Lemma commit_cons r p x ws s :
   end.
 Proof. simpl. unfold lookup. destruct (PM.find r s); simpl; [|reflexivity]. destruct (apply_write v p x); reflexivity. Qed.
 
-(** a write to another root can be moved in front *)
+(** two writes to different signals *)
 Lemma commit_swap2 (w1 w2 : write) rest s :
   wroot w1 <> wroot w2 ->
   res_equiv (commit s (w1 :: w2 :: rest)) (commit s (w2 :: w1 :: rest)).
@@ -279,6 +514,38 @@ Proof.
   - destruct (apply_write b2 p2 x2) as [n2|e2] eqn:A2;
       rewrite ?commit_cons, ?(PM.gso _ _ N), ?(PM.gso _ _ N'), ?F1, ?F2; exact I.
   - exact I.
+Qed.
+
+(** two writes to disjoint scalars of the same signal *)
+Lemma commit_swap2_same r p x q y rest s :
+  rp_disjoint p q = true ->
+  res_equiv (commit s ((r, p, x) :: (r, q, y) :: rest)) (commit s ((r, q, y) :: (r, p, x) :: rest)).
+Proof.
+  intros D. rewrite (commit_cons r p x), (commit_cons r q y ((r, p, x) :: rest)).
+  destruct (PM.find r s) as [base|] eqn:F; [|exact I].
+  pose proof (aw_comm p q base x y D) as C. unfold comm_spec in C.
+  destruct (apply_write base p x) as [b1|e1] eqn:A1; destruct (apply_write base q y) as [b2|e2] eqn:A2;
+    rewrite ?commit_cons, ?PM.gss.
+  - destruct C as (b & H1 & H2). rewrite H1, H2.
+    apply commit_equal. intros z. rewrite (add_add s r b b1 z), (add_add s r b b2 z). reflexivity.
+  - destruct C as (e & H1). rewrite H1. exact I.
+  - destruct C as (e & H1). rewrite H1. exact I.
+  - exact I.
+Qed.
+
+Definition wdisjb (w1 w2 : write) : bool :=
+  negb (Pos.eqb (wroot w1) (wroot w2)) || rp_disjoint (wpath w1) (wpath w2).
+
+Lemma wdisjb_sym w1 w2 : wdisjb w1 w2 = wdisjb w2 w1.
+Proof. unfold wdisjb. rewrite Pos.eqb_sym, rp_disjoint_sym. reflexivity. Qed.
+
+Lemma commit_swap_w (w1 w2 : write) rest s : wdisjb w1 w2 = true ->
+  res_equiv (commit s (w1 :: w2 :: rest)) (commit s (w2 :: w1 :: rest)).
+Proof.
+  unfold wdisjb. destruct (Pos.eqb (wroot w1) (wroot w2)) eqn:E; simpl; intros H.
+  - apply Pos.eqb_eq in E. destruct w1 as [[r1 p1] x1], w2 as [[r2 p2] x2]. unfold wroot, wpath in *; simpl in *.
+    subst r2. apply commit_swap2_same, H.
+  - apply commit_swap2. intros E'. rewrite E', Pos.eqb_refl in E. discriminate.
 Qed.
 
 Lemma commit_app a b s :
@@ -298,74 +565,159 @@ Proof.
   intros H s. rewrite !commit_app. destruct (commit s p); [apply H | exact I].
 Qed.
 
-Definition touches (r : positive) (ws : list write) : bool := existsb (fun w => Pos.eqb (wroot w) r) ws.
+Definition blocks_disjoint (a b : list write) : Prop :=
+  forall w1 w2, In w1 a -> In w2 b -> wdisjb w1 w2 = true.
 
-Definition roots_disjoint (a b : list write) : Prop :=
-  forall r, touches r a = true -> touches r b = false.
+Lemma blocks_disjoint_sym a b : blocks_disjoint a b -> blocks_disjoint b a.
+Proof. intros H w1 w2 H1 H2. rewrite wdisjb_sym. apply H; assumption. Qed.
 
-Lemma touches_false r ws : touches r ws = false -> forall w, In w ws -> wroot w <> r.
-Proof.
-  unfold touches. intros H w Hin E. 
-  assert (X : existsb (fun w => Pos.eqb (wroot w) r) ws = true).
-  { apply existsb_exists. exists w. split; [exact Hin | apply Pos.eqb_eq, E]. }
-  congruence.
-Qed.
-
-(** one write moves behind a block that does not touch its root *)
-Lemma commit_move1 w b : touches (wroot w) b = false ->
+(** one write moves behind a block it is disjoint from *)
+Lemma commit_move1 w b : (forall v, In v b -> wdisjb w v = true) ->
   forall rest s, res_equiv (commit s (w :: b ++ rest)) (commit s (b ++ w :: rest)).
 Proof.
   induction b as [|v b IH]; intros H rest s; [apply res_equiv_refl|].
-  simpl in H. apply orb_false_iff in H. destruct H as [Hv Hb].
-  assert (N : wroot w <> wroot v). { intros E. rewrite E, Pos.eqb_refl in Hv. discriminate. }
-  eapply res_equiv_trans; [apply (commit_swap2 w v (b ++ rest) s N)|].
+  eapply res_equiv_trans; [apply (commit_swap_w w v (b ++ rest) s); apply H; left; reflexivity|].
   change (v :: w :: b ++ rest) with ([v] ++ (w :: b ++ rest)).
   change ((v :: b) ++ w :: rest) with ([v] ++ (b ++ w :: rest)).
-  apply commit_prefix. intros s'. apply IH. exact Hb.
+  apply commit_prefix. intros s'. apply IH. intros v' Hv. apply H. right. exact Hv.
 Qed.
 
 (** the two-statement swap lemma *)
-Lemma commit_swap_blocks a : forall b rest, roots_disjoint a b ->
+Lemma commit_swap_blocks a : forall b rest, blocks_disjoint a b ->
   forall s, res_equiv (commit s (a ++ b ++ rest)) (commit s (b ++ a ++ rest)).
 Proof.
   induction a as [|w a IH]; intros b rest H s; [apply res_equiv_refl|].
-  assert (Hw : touches (wroot w) b = false).
-  { apply H. simpl. rewrite Pos.eqb_refl. reflexivity. }
-  assert (Ha : roots_disjoint a b).
-  { intros r Hr. apply H. simpl. rewrite Hr. apply orb_true_r. }
   eapply res_equiv_trans.
   - change ((w :: a) ++ b ++ rest) with ([w] ++ (a ++ b ++ rest)).
-    apply (commit_prefix [w] (a ++ b ++ rest) (b ++ a ++ rest)). intros s'. apply IH. exact Ha.
-  - simpl. apply (commit_move1 w b Hw (a ++ rest) s).
+    apply (commit_prefix [w] (a ++ b ++ rest) (b ++ a ++ rest)). intros s'. apply IH.
+    intros w1 w2 H1 H2. apply H; [right; exact H1 | exact H2].
+  - simpl. apply (commit_move1 w b). intros v Hv. apply H; [left; reflexivity | exact Hv].
 Qed.
 
-(** lift: at most one statement assigns each signal  =>  any order of the statements' write lists *)
-Definition owners_of (r : positive) (wss : list (list write)) : nat := length (filter (touches r) wss).
+(** lift to arbitrary permutations: the per-statement write lists carry the position of their
+    statement as a tag; lists with different tags are disjoint *)
+Definition tagged_disjoint (l : list (nat * list write)) : Prop :=
+  forall i j a b, In (i, a) l -> In (j, b) l -> i <> j -> blocks_disjoint a b.
 
-Lemma owners_transp wss wss' : Permutation_transp wss wss' -> forall r, owners_of r wss = owners_of r wss'.
+Lemma commit_perm_tagged l l' s :
+  NoDup (map fst l) -> tagged_disjoint l -> Permutation l l' ->
+  res_equiv (commit s (List.concat (map snd l))) (commit s (List.concat (map snd l'))).
 Proof.
-  induction 1; intros r; [reflexivity | | rewrite IHPermutation_transp1; apply IHPermutation_transp2].
-  unfold owners_of. rewrite !filter_app, !app_length. simpl.
-  destruct (touches r x), (touches r y); simpl; lia.
+  intros ND TD P. apply Permutation_Permutation_transp in P. revert s ND TD.
+  induction P as [l | x y l1 l2 | l1 l2 l3 P1 IH1 P2 IH2]; intros s ND TD.
+  - apply res_equiv_refl.
+  - rewrite !map_app, !List.concat_app. simpl. apply commit_prefix. intros s'.
+    destruct x as [i a], y as [j b]. simpl.
+    apply commit_swap_blocks. apply (TD j i b a).
+    + apply in_or_app. right. left. reflexivity.
+    + apply in_or_app. right. right. left. reflexivity.
+    + rewrite map_app in ND. simpl in ND. apply NoDup_remove_2 in ND.
+      intros E. subst j. apply ND. apply in_or_app. right. left. reflexivity.
+  - assert (P1' : Permutation l1 l2) by (apply Permutation_Permutation_transp; exact P1).
+    eapply res_equiv_trans; [apply IH1; assumption|]. apply IH2.
+    + eapply Permutation_NoDup; [apply Permutation_map, P1' | exact ND].
+    + intros i j a b Hi Hj. apply TD; eapply Permutation_in; try (apply Permutation_sym; exact P1'); assumption.
+Qed.
+
+Fixpoint tag_from {A} (k : nat) (l : list A) : list (nat * A) :=
+  match l with
+  | [] => []
+  | x :: r => (k, x) :: tag_from (S k) r
+  end.
+
+Lemma tag_from_ge {A} (l : list A) : forall k i a, In (i, a) (tag_from k l) -> k <= i.
+Proof.
+  induction l as [|x l IH]; intros k i a H; simpl in H; [contradiction|].
+  destruct H as [E|H]; [inversion E; lia | apply IH in H; lia].
+Qed.
+
+Lemma tag_from_snd {A} (l : list A) : forall k, map snd (tag_from k l) = l.
+Proof. induction l as [|x l IH]; intros k; simpl; [reflexivity | rewrite IH; reflexivity]. Qed.
+
+Lemma tag_from_nodup {A} (l : list A) : forall k, NoDup (map fst (tag_from k l)).
+Proof.
+  induction l as [|x l IH]; intros k; simpl; constructor; [|apply IH].
+  intros H. apply in_map_iff in H. destruct H as ([i a] & E & H). simpl in E. subst i.
+  apply tag_from_ge in H. lia.
+Qed.
+
+Lemma tag_from_pairwise {A} (P : A -> A -> bool) (l : list A) : forall k,
+  pairwise P l = true ->
+  forall i j a b, In (i, a) (tag_from k l) -> In (j, b) (tag_from k l) -> i < j -> P a b = true.
+Proof.
+  induction l as [|x l IH]; intros k H i j a b Hi Hj Hlt; simpl in *; [contradiction|].
+  apply andb_prop in H. destruct H as [Hx Hl].
+  destruct Hi as [Ei|Hi]; destruct Hj as [Ej|Hj].
+  - inversion Ei; inversion Ej; lia.
+  - inversion Ei; subst. rewrite forallb_forall in Hx. apply Hx.
+    assert (X : In b (map snd (tag_from (S i) l))) by (apply in_map_iff; exists (j, b); auto).
+    rewrite tag_from_snd in X. exact X.
+  - inversion Ej; subst. apply tag_from_ge in Hi. lia.
+  - apply (IH (S k) Hl i j); assumption.
 Qed.
 
 Theorem commit_perm wss wss' s :
-  (forall r, owners_of r wss <= 1) ->
-  Permutation wss wss' ->
+  tagged_disjoint (tag_from 0 wss) -> Permutation wss wss' ->
   res_equiv (commit s (List.concat wss)) (commit s (List.concat wss')).
 Proof.
-  intros H P. apply Permutation_Permutation_transp in P. revert s H.
-  induction P as [l | x y l1 l2 | l1 l2 l3 P1 IH1 P2 IH2]; intros s H.
-  - apply res_equiv_refl.
-  - rewrite !List.concat_app. simpl. apply commit_prefix. intros s'.
-    apply commit_swap_blocks. intros r Hy.
-    specialize (H r). unfold owners_of in H. rewrite filter_app, app_length in H. simpl in H.
-    rewrite Hy in H. destruct (touches r x); [simpl in H; lia | reflexivity].
-  - eapply res_equiv_trans; [apply IH1, H|]. apply IH2.
-    intros r. rewrite <- (owners_transp _ _ P1 r). apply H.
+  intros TD P. rewrite <- (tag_from_snd wss 0) in P.
+  apply Permutation_sym in P. apply Permutation_map_inv in P. destruct P as (l' & E & P).
+  rewrite <- (tag_from_snd wss 0) at 1. rewrite E.
+  apply commit_perm_tagged; [apply tag_from_nodup | exact TD | exact P].
 Qed.
 
-(** ** the writes a statement can produce stay inside its static footprint *)
+(** ** from static to resolved disjointness *)
+
+Lemma resolve_idx sg vr ev i r rp k :
+  static_index i = Some k -> resolve sg vr ev (SelIdx i :: r) = Ok rp ->
+  exists r', rp = RIdx k :: r' /\ resolve sg vr ev r = Ok r'.
+Proof.
+  intros S H. destruct i as [v| | | | | | | | |]; try discriminate. destruct v; try discriminate.
+  simpl in S. destruct (0 <=? z)%Z eqn:Z; [|discriminate]. inversion S; subst k.
+  cbn [resolve eval] in H. simpl in H. rewrite Z in H.
+  destruct (resolve sg vr ev r) as [r'|]; simpl in H; [|discriminate].
+  inversion H; subst. exists r'. auto.
+Qed.
+
+Lemma resolve_slice sg vr ev hi lo r rp :
+  resolve sg vr ev (SelSlice hi lo :: r) = Ok rp ->
+  exists r', rp = RSlice hi lo :: r' /\ resolve sg vr ev r = Ok r'.
+Proof.
+  cbn [resolve]. destruct (resolve sg vr ev r) as [r'|]; simpl; [|discriminate].
+  intros H; inversion H; subst. exists r'. auto.
+Qed.
+
+Lemma resolve_nil sg vr ev r r' : is_nil r = true -> resolve sg vr ev r = Ok r' -> is_nil r' = true.
+Proof. destruct r; [|discriminate]. simpl. intros _ H; inversion H; reflexivity. Qed.
+
+Lemma sel_rp_disjoint p : forall q sg vr ev sg' vr' ev' rp rq,
+  sel_disjoint p q = true ->
+  resolve sg vr ev p = Ok rp -> resolve sg' vr' ev' q = Ok rq -> rp_disjoint rp rq = true.
+Proof.
+  induction p as [|[i|hi lo] p IH]; intros [|[j|hi' lo'] q] sg vr ev sg' vr' ev' rp rq D Hp Hq;
+    simpl in D; try discriminate.
+  - destruct (static_index i) as [n|] eqn:Si; [|discriminate].
+    destruct (static_index j) as [m|] eqn:Sj; [|discriminate].
+    destruct (resolve_idx _ _ _ _ _ _ _ Si Hp) as (p' & -> & Hp').
+    destruct (resolve_idx _ _ _ _ _ _ _ Sj Hq) as (q' & -> & Hq').
+    simpl. destruct (n =? m)%N; [|reflexivity]. eapply IH; eauto.
+  - destruct (static_index i) as [n|] eqn:Si; [|discriminate].
+    destruct (resolve_idx _ _ _ _ _ _ _ Si Hp) as (p' & -> & Hp').
+    destruct (resolve_slice _ _ _ _ _ _ _ Hq) as (q' & -> & Hq').
+    apply andb_prop in D. destruct D as [D D3]. apply andb_prop in D. destruct D as [D1 D2].
+    simpl. rewrite (resolve_nil _ _ _ _ _ D1 Hp'), (resolve_nil _ _ _ _ _ D2 Hq'), D3. reflexivity.
+  - destruct (static_index j) as [m|] eqn:Sj; [|discriminate].
+    destruct (resolve_slice _ _ _ _ _ _ _ Hp) as (p' & -> & Hp').
+    destruct (resolve_idx _ _ _ _ _ _ _ Sj Hq) as (q' & -> & Hq').
+    apply andb_prop in D. destruct D as [D D3]. apply andb_prop in D. destruct D as [D1 D2].
+    simpl. rewrite (resolve_nil _ _ _ _ _ D1 Hp'), (resolve_nil _ _ _ _ _ D2 Hq'), D3. reflexivity.
+  - destruct (resolve_slice _ _ _ _ _ _ _ Hp) as (p' & -> & Hp').
+    destruct (resolve_slice _ _ _ _ _ _ _ Hq) as (q' & -> & Hq').
+    apply andb_prop in D. destruct D as [D D3]. apply andb_prop in D. destruct D as [D1 D2].
+    simpl. rewrite (resolve_nil _ _ _ _ _ D1 Hp'), (resolve_nil _ _ _ _ _ D2 Hq'), D3. reflexivity.
+Qed.
+
+(** ** every write a statement produces comes from one of its static assignments *)
 
 Fixpoint stmt_writes_acc (s : stmt) :
   forall acc x, In x (stmt_writes s acc) <-> In x (stmt_writes s []) \/ In x acc
@@ -382,39 +734,29 @@ Proof.
     + rewrite (stmt_writes_acc s), (stmt_writes_acc s (arms_writes r [])), (arms_writes_acc r acc). tauto.
 Qed.
 
-Definition stmt_roots (s : stmt) : list positive := map fst (stmt_writes s []).
-Definition arms_roots (a : arms) : list positive := map fst (arms_writes a []).
+(** [w] was produced by the static assignment [(root, path)] of [ws], its path resolved under
+    some variable store *)
+Definition prov (sg : store) (ev : PS.t) (ws : list swrite) (w : write) : Prop :=
+  exists path vr0, In (wroot w, path) ws /\ resolve sg vr0 ev path = Ok (wpath w).
 
-Lemma in_roots_acc s acc r :
-  In r (map fst (stmt_writes s acc)) <-> In r (stmt_roots s) \/ In r (map fst acc).
-Proof.
-  unfold stmt_roots. rewrite !in_map_iff. split.
-  - intros (x & E & H). apply stmt_writes_acc in H. destruct H; [left | right]; exists x; auto.
-  - intros [(x & E & H)|(x & E & H)]; exists x; split; auto; apply stmt_writes_acc; auto.
-Qed.
+Lemma prov_incl sg ev ws ws' w : (forall x, In x ws -> In x ws') -> prov sg ev ws w -> prov sg ev ws' w.
+Proof. intros H (path & vr0 & Hin & R). exists path, vr0. auto. Qed.
 
-Lemma in_aroots_acc a acc r :
-  In r (map fst (arms_writes a acc)) <-> In r (arms_roots a) \/ In r (map fst acc).
-Proof.
-  unfold arms_roots. rewrite !in_map_iff. split.
-  - intros (x & E & H). apply arms_writes_acc in H. destruct H; [left | right]; exists x; auto.
-  - intros [(x & E & H)|(x & E & H)]; exists x; split; auto; apply arms_writes_acc; auto.
-Qed.
-
-Fixpoint exec_roots (s : stmt) :
+Fixpoint exec_prov (s : stmt) :
   forall sg ev vr pend vr' pend', exec sg ev s vr pend = Ok (vr', pend') ->
-  forall w, In w pend' -> In w pend \/ In (wroot w) (stmt_roots s)
-with exec_arms_roots (a : arms) :
+  forall w, In w pend' -> In w pend \/ prov sg ev (stmt_writes s []) w
+with exec_arms_prov (a : arms) :
   forall sg ev v vr pend vr' pend', exec_arms sg ev v a vr pend = Ok (vr', pend') ->
-  forall w, In w pend' -> In w pend \/ In (wroot w) (arms_roots a).
+  forall w, In w pend' -> In w pend \/ prov sg ev (arms_writes a []) w.
 Proof.
   - destruct s as [|r p e|r p e|c a b|e ar|a b|c]; intros sg ev vr pend vr' pend' H w Hw; simpl in H.
     + inversion H; subst. auto.
     + destruct (eval sg vr ev e); simpl in H; [|discriminate].
-      destruct (resolve sg vr ev p); simpl in H; [|discriminate].
+      destruct (resolve sg vr ev p) as [rp|] eqn:R; simpl in H; [|discriminate].
       destruct (lookup sg r); simpl in H; [|discriminate].
       destruct (apply_write _ _ _); simpl in H; [|discriminate].
-      inversion H; subst. destruct Hw as [E|Hw]; [|auto]. subst w. right. left. reflexivity.
+      inversion H; subst. destruct Hw as [E|Hw]; [|auto]. subst w. right.
+      exists p. eexists. split; [left; reflexivity | exact R].
     + destruct (eval sg vr ev e); simpl in H; [|discriminate].
       destruct (resolve sg vr ev p); simpl in H; [|discriminate].
       destruct (lookup vr r); simpl in H; [|discriminate].
@@ -422,130 +764,663 @@ Proof.
       inversion H; subst. auto.
     + destruct (eval sg vr ev c) as [cv|]; simpl in H; [|discriminate].
       destruct cv as [| | [|] | | |]; try discriminate.
-      * destruct (exec_roots a _ _ _ _ _ _ H w Hw) as [X|X]; [auto|].
-        right. unfold stmt_roots. simpl. apply in_roots_acc. auto.
-      * destruct (exec_roots b _ _ _ _ _ _ H w Hw) as [X|X]; [auto|].
-        right. unfold stmt_roots. simpl. apply in_roots_acc. right. exact X.
+      * destruct (exec_prov a _ _ _ _ _ _ H w Hw) as [X|X]; [auto|].
+        right. eapply prov_incl; [|exact X]. intros y Hy. simpl. apply stmt_writes_acc. auto.
+      * destruct (exec_prov b _ _ _ _ _ _ H w Hw) as [X|X]; [auto|].
+        right. eapply prov_incl; [|exact X]. intros y Hy. simpl. apply stmt_writes_acc. auto.
     + destruct (eval sg vr ev e) as [v|]; simpl in H; [|discriminate].
-      apply (exec_arms_roots ar _ _ _ _ _ _ _ H w Hw).
+      apply (exec_arms_prov ar _ _ _ _ _ _ _ H w Hw).
     + destruct (exec sg ev a vr pend) as [[vr1 pend1]|] eqn:E1; simpl in H; [|discriminate].
-      destruct (exec_roots b _ _ _ _ _ _ H w Hw) as [X|X].
-      * destruct (exec_roots a _ _ _ _ _ _ E1 w X) as [Y|Y]; [auto|].
-        right. unfold stmt_roots. simpl. apply in_roots_acc. auto.
-      * right. unfold stmt_roots. simpl. apply in_roots_acc. right. exact X.
+      destruct (exec_prov b _ _ _ _ _ _ H w Hw) as [X|X].
+      * destruct (exec_prov a _ _ _ _ _ _ E1 w X) as [Y|Y]; [auto|].
+        right. eapply prov_incl; [|exact Y]. intros y Hy. simpl. apply stmt_writes_acc. auto.
+      * right. eapply prov_incl; [|exact X]. intros y Hy. simpl. apply stmt_writes_acc. auto.
     + destruct (eval sg vr ev c) as [cv|]; simpl in H; [|discriminate].
       destruct cv; try discriminate. inversion H; subst. auto.
   - destruct a as [[s|]|chs s r]; intros sg ev v vr pend vr' pend' H w Hw; simpl in H.
-    + apply (exec_roots s _ _ _ _ _ _ H w Hw).
+    + apply (exec_prov s _ _ _ _ _ _ H w Hw).
     + inversion H; subst. auto.
     + destruct (existsb (choice_eqb v) chs).
-      * destruct (exec_roots s _ _ _ _ _ _ H w Hw) as [X|X]; [auto|].
-        right. unfold arms_roots. simpl. apply in_roots_acc. auto.
-      * destruct (exec_arms_roots r _ _ _ _ _ _ _ H w Hw) as [X|X]; [auto|].
-        right. unfold arms_roots. simpl. apply in_roots_acc. right. exact X.
+      * destruct (exec_prov s _ _ _ _ _ _ H w Hw) as [X|X]; [auto|].
+        right. eapply prov_incl; [|exact X]. intros y Hy. simpl. apply stmt_writes_acc. auto.
+      * destruct (exec_arms_prov r _ _ _ _ _ _ _ H w Hw) as [X|X]; [auto|].
+        right. eapply prov_incl; [|exact X]. intros y Hy. simpl. apply stmt_writes_acc. auto.
 Qed.
 
-Definition conc_roots (c : conc) : list positive := map fst (conc_writes c).
-
-Lemma run_conc_roots sg vr ev c vr' ws :
-  run_conc sg vr ev c = Ok (vr', ws) -> forall w, In w ws -> In (wroot w) (conc_roots c).
+Lemma run_conc_prov sg vr ev c vr' ws :
+  run_conc sg vr ev c = Ok (vr', ws) -> forall w, In w ws -> prov sg ev (conc_writes c) w.
 Proof.
   destruct c as [r p e|r p s alts others|lbl sens body]; simpl; intros H w Hw.
   - destruct (eval sg vr ev e); simpl in H; [|discriminate].
-    destruct (resolve sg vr ev p); simpl in H; [|discriminate].
+    destruct (resolve sg vr ev p) as [rp|] eqn:R; simpl in H; [|discriminate].
     destruct (lookup sg r); simpl in H; [|discriminate].
     destruct (apply_write _ _ _); simpl in H; [|discriminate].
-    inversion H; subst. destruct Hw as [E|[]]. subst w. left. reflexivity.
+    inversion H; subst. destruct Hw as [E|[]]. subst w. exists p. eexists. split; [left; reflexivity | exact R].
   - destruct (eval sg vr ev s); simpl in H; [|discriminate].
     destruct (select_alt _ _ _); [|discriminate].
     destruct (eval sg vr ev e); simpl in H; [|discriminate].
-    destruct (resolve sg vr ev p); simpl in H; [|discriminate].
+    destruct (resolve sg vr ev p) as [rp|] eqn:R; simpl in H; [|discriminate].
     destruct (lookup sg r); simpl in H; [|discriminate].
     destruct (apply_write _ _ _); simpl in H; [|discriminate].
-    inversion H; subst. destruct Hw as [E|[]]. subst w. left. reflexivity.
+    inversion H; subst. destruct Hw as [E|[]]. subst w. exists p. eexists. split; [left; reflexivity | exact R].
   - destruct (exec sg ev body vr []) as [[vr1 pend1]|] eqn:E; simpl in H; [|discriminate].
     inversion H; subst. apply in_rev in Hw.
-    destruct (exec_roots body _ _ _ _ _ _ E w Hw) as [[]|X]. exact X.
+    destruct (exec_prov body _ _ _ _ _ _ E w Hw) as [[]|X]. exact X.
 Qed.
 
-(** root-level strengthening of [drivers_disjoint]: no two statements assign the same signal *)
-Definition pmem (x : positive) (l : list positive) : bool := existsb (Pos.eqb x) l.
-Definition lists_disjoint (a b : list positive) : bool := forallb (fun x => negb (pmem x b)) a.
-Definition single_driver_roots (d : design) : bool := pairwise lists_disjoint (map conc_roots d.(d_conc)).
-
-Lemma touches_within r ws roots :
-  (forall w, In w ws -> In (wroot w) roots) -> touches r ws = true -> In r roots.
+(** statically disjoint statements produce disjoint write lists *)
+Lemma prov_disjoint sg ev wa wb a b :
+  stmts_disjoint wa wb = true ->
+  (forall w, In w a -> prov sg ev wa w) -> (forall w, In w b -> prov sg ev wb w) ->
+  blocks_disjoint a b.
 Proof.
-  intros H T. unfold touches in T. apply existsb_exists in T. destruct T as (w & Hin & E).
-  apply Pos.eqb_eq in E. subst r. apply H, Hin.
+  intros S Ha Hb w1 w2 H1 H2.
+  destruct (Ha _ H1) as (p1 & vr1 & I1 & R1). destruct (Hb _ H2) as (p2 & vr2 & I2 & R2).
+  unfold stmts_disjoint in S. rewrite forallb_forall in S. specialize (S _ I1).
+  rewrite forallb_forall in S. specialize (S _ I2). unfold sw_disjoint in S. simpl in S.
+  unfold wdisjb. destruct (Pos.eqb (wroot w1) (wroot w2)); simpl in *; [|reflexivity].
+  eapply sel_rp_disjoint; eauto.
 Qed.
 
-Lemma owners_le_1 (rs : list (list positive)) : forall wss,
-  pairwise lists_disjoint rs = true ->
-  Forall2 (fun roots ws => forall w, In w ws -> In (wroot w) roots) rs wss ->
-  forall r, owners_of r wss <= 1.
+Lemma forall2_tagged {A B} (R : A -> B -> Prop) (l : list A) (l' : list B) :
+  Forall2 R l l' -> forall k i b, In (i, b) (tag_from k l') -> exists a, In (i, a) (tag_from k l) /\ R a b.
 Proof.
-  induction rs as [|roots rs IH]; intros wss P F r; inversion F as [|? ws ? wss' Hw F']; subst.
-  - unfold owners_of. simpl. lia.
-  - simpl in P. apply andb_prop in P. destruct P as [P1 P2].
-    specialize (IH _ P2 F' r). unfold owners_of in *. simpl.
-    destruct (touches r ws) eqn:T; [|exact IH]. simpl.
-    assert (Hr : In r roots) by (eapply touches_within; eauto).
-    assert (Z : filter (touches r) wss' = []).
-    { clear IH P2 F Hw T. revert wss' F'. induction rs as [|roots' rs IH']; intros wss' F'; inversion F' as [|? ws' ? wss'' Hw' F'']; subst.
-      - reflexivity.
-      - simpl in P1. apply andb_prop in P1. destruct P1 as [Pa Pb]. simpl.
-        destruct (touches r ws') eqn:T'.
-        + exfalso. assert (Hr' : In r roots') by (eapply touches_within; eauto).
-          unfold lists_disjoint in Pa. rewrite forallb_forall in Pa. specialize (Pa r Hr).
-          assert (X : pmem r roots' = true) by (apply existsb_exists; exists r; split; [exact Hr' | apply Pos.eqb_refl]).
-          rewrite X in Pa. discriminate.
-        + apply IH'; assumption. }
-    rewrite Z. simpl. lia.
+  induction 1 as [|a b l l' H F IH]; intros k i b0 Hin; simpl in *; [contradiction|].
+  destruct Hin as [E|Hin].
+  - inversion E; subst. exists a. auto.
+  - destruct (IH _ _ _ Hin) as (a0 & Ha & Hr). exists a0. auto.
 Qed.
 
-(** [single_driver_sound], partial: proved for designs in which different concurrent statements
-    assign different SIGNALS ([single_driver_roots], what cohdl's root-level usage check aims
-    at).  Whatever variable stores the statements ran with ([vr0], so also under the threading
-    of [Sem.run_all]), the write lists they produce can be handed to [Sem.commit] in any
-    statement order: the committed store is the same (or both orders end in a run-time error).
-    MISSING for the full statement: (1) statements that assign disjoint scalars of one signal
-    (accepted by [single_driver]; needs commutation of [setslice] on disjoint ranges),
-    (2) independence of the variable store threading from the order (follows from
-    [vars_local], frame property of [exec], not proved here). *)
-Theorem single_driver_sound_partial d sg ev wss wss' :
-  single_driver_roots d = true ->
+(** [single_driver_sound], commit level: whatever variable stores the statements ran with
+    (so also under the threading of [Sem.run_all]), the write lists they produce can be handed
+    to [Sem.commit] in any statement order. *)
+Theorem single_driver_commit_sound d sg ev wss wss' :
+  drivers_disjoint d = true ->
   Forall2 (fun c ws => exists vr0 vr1, run_conc sg vr0 ev c = Ok (vr1, ws)) d.(d_conc) wss ->
   Permutation wss wss' ->
   res_equiv (commit sg (List.concat wss)) (commit sg (List.concat wss')).
 Proof.
   intros S F P. apply commit_perm; [|exact P].
-  apply (owners_le_1 (map conc_roots d.(d_conc))); [exact S|].
-  clear S P. induction F as [|c ws cs wss0 H F IH]; simpl; constructor; [|exact IH].
-  destruct H as (vr0 & vr1 & H). apply (run_conc_roots _ _ _ _ _ _ H).
+  intros i j a b Hi Hj Hne.
+  destruct (forall2_tagged _ _ _ F _ _ _ Hi) as (ci & Hci & (vi0 & vi1 & Ri)).
+  destruct (forall2_tagged _ _ _ F _ _ _ Hj) as (cj & Hcj & (vj0 & vj1 & Rj)).
+  assert (Pi := run_conc_prov _ _ _ _ _ _ Ri). assert (Pj := run_conc_prov _ _ _ _ _ _ Rj).
+  assert (T : forall k (l : list conc) i c, In (i, c) (tag_from k l) -> In (i, conc_writes c) (tag_from k (map conc_writes l))).
+  { intros k l. revert k. induction l as [|x l IH]; intros k i0 c H; simpl in *; [contradiction|].
+    destruct H as [E|H]; [inversion E; subst; left; reflexivity | right; apply IH, H]. }
+  unfold drivers_disjoint in S.
+  destruct (Nat.lt_ge_cases i j) as [L|G].
+  - eapply prov_disjoint; [|exact Pi|exact Pj].
+    apply (tag_from_pairwise stmts_disjoint _ 0 S i j); auto.
+  - apply blocks_disjoint_sym. eapply prov_disjoint; [|exact Pj|exact Pi].
+    apply (tag_from_pairwise stmts_disjoint _ 0 S j i); auto. lia.
 Qed.
 
-(** non-vacuity: two processes and a concurrent assignment on three different signals *)
-Example single_driver_roots_example :
-  let d := {| d_sigs := [ {| sd_id := 1; sd_ty := TLogic; sd_dir := DIn; sd_init := VL false; sd_hasdef := false |};
-                          {| sd_id := 2; sd_ty := TVec KSlv 4; sd_dir := DOut; sd_init := VV KSlv 4 0; sd_hasdef := false |};
-                          {| sd_id := 3; sd_ty := TLogic; sd_dir := DLocal; sd_init := VL false; sd_hasdef := false |} ];
-              d_vars := [ {| vd_id := 1; vd_proc := 1; vd_ty := TLogic; vd_init := VL false; vd_hasdef := false |} ];
-              d_conc := [ CProc 1 [1%positive] (SSeq (SVar 1 [] (ESig 1)) (SSig 3 [] (EVar 1)));
-                          CAssign 2 [SelSlice 3 2] (ELit (VV KSlv 2 1));
-                          CAssign 2 [SelIdx (ELit (VI 1))] (ESig 3) ];
-              d_clk := None; d_inputs := [1%positive]; d_outputs := [2%positive] |} in
-  single_driver d = true /\ single_driver_roots d = false
-  /\ single_driver {| d_sigs := d.(d_sigs); d_vars := d.(d_vars);
-                      d_conc := CAssign 3 [] (EVar 1) :: d.(d_conc);
-                      d_clk := None; d_inputs := []; d_outputs := [] |} = false
-  /\ single_driver_roots {| d_sigs := d.(d_sigs); d_vars := d.(d_vars);
-                            d_conc := [ CProc 1 [1%positive] (SSig 3 [] (ESig 1)); CAssign 2 [] (ELit (VV KSlv 4 1)) ];
-                            d_clk := None; d_inputs := []; d_outputs := [] |} = true.
+(** * Frame property of the variable store *)
+
+Definition agree (P : positive -> Prop) (a b : store) : Prop := forall x, P x -> PM.find x a = PM.find x b.
+
+Lemma agree_sub (P Q : positive -> Prop) a b : (forall x, Q x -> P x) -> agree P a b -> agree Q a b.
+Proof. intros H A x Hx. apply A, H, Hx. Qed.
+
+Lemma agree_add P a b x (v : value) : agree P a b -> agree P (PM.add x v a) (PM.add x v b).
+Proof.
+  intros A y Hy. destruct (Pos.eq_dec y x) as [E|N]; [subst; rewrite !PM.gss; reflexivity|].
+  rewrite !(PM.gso _ _ N). apply A, Hy.
+Qed.
+
+Lemma expr_vars_acc e : forall acc x, In x (expr_vars e acc) <-> In x (expr_vars e []) \/ In x acc.
+Proof.
+  induction e; intros acc y; simpl; try tauto.
+  - rewrite IHe1, (IHe1 (expr_vars e2 [])), IHe2. tauto.
+  - apply IHe.
+  - apply IHe.
+  - rewrite IHe1, (IHe1 (expr_vars e2 [])), IHe2. tauto.
+  - apply IHe.
+  - rewrite IHe1, (IHe1 (expr_vars e2 [])), IHe2. tauto.
+Qed.
+
+Lemma path_vars_acc p : forall acc x, In x (path_vars p acc) <-> In x (path_vars p []) \/ In x acc.
+Proof.
+  induction p as [|[i|hi lo] p IH]; intros acc x; simpl; [tauto| |apply IH].
+  rewrite expr_vars_acc, (expr_vars_acc i (path_vars p [])), IH. tauto.
+Qed.
+
+Fixpoint stmt_vars_acc (s : stmt) :
+  forall acc x, In x (stmt_vars s acc) <-> In x (stmt_vars s []) \/ In x acc
+with arms_vars_acc (a : arms) :
+  forall acc x, In x (arms_vars a acc) <-> In x (arms_vars a []) \/ In x acc.
+Proof.
+  - destruct s as [|r p e|r p e|c a b|e ar|a b|c]; intros acc x; simpl.
+    + tauto.
+    + rewrite path_vars_acc, (path_vars_acc p (expr_vars e [])), expr_vars_acc. tauto.
+    + rewrite path_vars_acc, (path_vars_acc p (expr_vars e [])), expr_vars_acc. tauto.
+    + rewrite expr_vars_acc, (expr_vars_acc c (stmt_vars a (stmt_vars b []))),
+        (stmt_vars_acc a), (stmt_vars_acc a (stmt_vars b [])), (stmt_vars_acc b acc). tauto.
+    + rewrite expr_vars_acc, (expr_vars_acc e (arms_vars ar [])), (arms_vars_acc ar acc). tauto.
+    + rewrite (stmt_vars_acc a), (stmt_vars_acc a (stmt_vars b [])), (stmt_vars_acc b acc). tauto.
+    + apply expr_vars_acc.
+  - destruct a as [[s|]|chs s r]; intros acc x; simpl.
+    + apply stmt_vars_acc.
+    + tauto.
+    + rewrite (stmt_vars_acc s), (stmt_vars_acc s (arms_vars r [])), (arms_vars_acc r acc). tauto.
+Qed.
+
+Lemma lookup_agree (P : positive -> Prop) a b x : P x -> agree P a b -> lookup a x = lookup b x.
+Proof. intros Hx A. unfold lookup. rewrite (A x Hx). reflexivity. Qed.
+
+Lemma eval_agree (P : positive -> Prop) sg ev a b e :
+  (forall x, In x (expr_vars e []) -> P x) -> agree P a b -> eval sg a ev e = eval sg b ev e.
+Proof.
+  intros H A. induction e; simpl in *; try reflexivity.
+  - apply (lookup_agree P); [apply H; left; reflexivity | exact A].
+  - rewrite IHe1, IHe2; [reflexivity| |]; intros y Hy; apply H, expr_vars_acc; auto.
+  - rewrite IHe; [reflexivity|exact H].
+  - rewrite IHe; [reflexivity|exact H].
+  - rewrite IHe1, IHe2; [reflexivity| |]; intros y Hy; apply H, expr_vars_acc; auto.
+  - rewrite IHe; [reflexivity|exact H].
+  - rewrite IHe1, IHe2; [reflexivity| |]; intros y Hy; apply H, expr_vars_acc; auto.
+Qed.
+
+Lemma resolve_agree (P : positive -> Prop) sg ev a b p :
+  (forall x, In x (path_vars p []) -> P x) -> agree P a b -> resolve sg a ev p = resolve sg b ev p.
+Proof.
+  intros H A. induction p as [|[i|hi lo] p IH]; simpl in *; [reflexivity| |].
+  - rewrite (eval_agree P sg ev a b i), IH; [reflexivity| | |exact A]; intros y Hy; apply H, expr_vars_acc; auto.
+  - rewrite IH; [reflexivity|exact H].
+Qed.
+
+(** results of running a statement under two variable stores *)
+Definition out_rel (P : positive -> Prop) (r1 r2 : res (store * list write)) : Prop :=
+  match r1, r2 with
+  | Ok (a, p1), Ok (b, p2) => p1 = p2 /\ agree P a b
+  | Err e1, Err e2 => e1 = e2
+  | _, _ => False
+  end.
+
+Lemma out_rel_same P (r : res (store * list write)) : out_rel P r r.
+Proof. destruct r as [[a p]|e]; simpl; [split; [reflexivity | intros x _; reflexivity] | reflexivity]. Qed.
+
+Fixpoint exec_agree (s : stmt) :
+  forall (P : positive -> Prop) sg ev a b pend,
+  (forall x, In x (stmt_vars s []) -> P x) -> agree P a b ->
+  out_rel P (exec sg ev s a pend) (exec sg ev s b pend)
+with exec_arms_agree (ar : arms) :
+  forall (P : positive -> Prop) sg ev v a b pend,
+  (forall x, In x (arms_vars ar []) -> P x) -> agree P a b ->
+  out_rel P (exec_arms sg ev v ar a pend) (exec_arms sg ev v ar b pend).
+Proof.
+  - destruct s as [|r p e|r p e|c s1 s2|e ar|s1 s2|c]; intros P sg ev a b pend H A; simpl in H |- *.
+    + split; [reflexivity | exact A].
+    + rewrite <- (eval_agree P sg ev a b e), <- (resolve_agree P sg ev a b p); try exact A;
+        try (intros y Hy; apply H; apply path_vars_acc; auto).
+      destruct (eval sg a ev e); simpl; [|reflexivity].
+      destruct (resolve sg a ev p); simpl; [|reflexivity].
+      destruct (lookup sg r); simpl; [|reflexivity].
+      destruct (apply_write _ _ _); simpl; [|reflexivity]. split; [reflexivity | exact A].
+    + rewrite <- (eval_agree P sg ev a b e), <- (resolve_agree P sg ev a b p), <- (lookup_agree P a b r); try exact A;
+        try (intros y Hy; apply H; right; apply path_vars_acc; auto); try (apply H; left; reflexivity).
+      destruct (eval sg a ev e); simpl; [|reflexivity].
+      destruct (resolve sg a ev p); simpl; [|reflexivity].
+      destruct (lookup a r); simpl; [|reflexivity].
+      destruct (apply_write _ _ _); simpl; [|reflexivity]. split; [reflexivity | apply agree_add, A].
+    + rewrite <- (eval_agree P sg ev a b c); try exact A; [|intros y Hy; apply H, expr_vars_acc; auto].
+      destruct (eval sg a ev c) as [cv|]; simpl; [|reflexivity].
+      destruct cv as [| | [|] | | |]; try reflexivity.
+      * apply exec_agree; [|exact A]. intros y Hy. apply H, expr_vars_acc. right. apply stmt_vars_acc. auto.
+      * apply exec_agree; [|exact A]. intros y Hy. apply H, expr_vars_acc. right. apply stmt_vars_acc. auto.
+    + rewrite <- (eval_agree P sg ev a b e); try exact A; [|intros y Hy; apply H, expr_vars_acc; auto].
+      destruct (eval sg a ev e) as [v|]; simpl; [|reflexivity].
+      apply exec_arms_agree; [|exact A]. intros y Hy. apply H, expr_vars_acc. auto.
+    + pose proof (exec_agree s1 P sg ev a b pend) as I1.
+      destruct (exec sg ev s1 a pend) as [[a1 p1]|e1]; destruct (exec sg ev s1 b pend) as [[b1 p2]|e2]; simpl in *;
+        try (exfalso; apply I1; [intros y Hy; apply H, stmt_vars_acc; auto | exact A]).
+      * destruct I1 as [E A1]; [intros y Hy; apply H, stmt_vars_acc; auto | exact A |]. subst p2.
+        apply exec_agree; [|exact A1]. intros y Hy. apply H, stmt_vars_acc. auto.
+      * apply I1; [intros y Hy; apply H, stmt_vars_acc; auto | exact A].
+    + rewrite <- (eval_agree P sg ev a b c); try exact A; [|exact H].
+      destruct (eval sg a ev c) as [cv|]; simpl; [|reflexivity].
+      destruct cv; try reflexivity. split; [reflexivity | exact A].
+  - destruct ar as [[s|]|chs s r]; intros P sg ev v a b pend H A; simpl in H |- *.
+    + apply exec_agree; assumption.
+    + split; [reflexivity | exact A].
+    + destruct (existsb (choice_eqb v) chs).
+      * apply exec_agree; [|exact A]. intros y Hy. apply H, stmt_vars_acc. auto.
+      * apply exec_arms_agree; [|exact A]. intros y Hy. apply H, stmt_vars_acc. auto.
+Qed.
+
+Fixpoint exec_unchanged (s : stmt) :
+  forall sg ev a pend a' pend', exec sg ev s a pend = Ok (a', pend') ->
+  forall x, ~ In x (stmt_vars s []) -> PM.find x a' = PM.find x a
+with exec_arms_unchanged (ar : arms) :
+  forall sg ev v a pend a' pend', exec_arms sg ev v ar a pend = Ok (a', pend') ->
+  forall x, ~ In x (arms_vars ar []) -> PM.find x a' = PM.find x a.
+Proof.
+  - destruct s as [|r p e|r p e|c s1 s2|e ar|s1 s2|c]; intros sg ev a pend a' pend' H x Hx; simpl in H, Hx.
+    + inversion H; reflexivity.
+    + destruct (eval sg a ev e); simpl in H; [|discriminate].
+      destruct (resolve sg a ev p); simpl in H; [|discriminate].
+      destruct (lookup sg r); simpl in H; [|discriminate].
+      destruct (apply_write _ _ _); simpl in H; [|discriminate]. inversion H; reflexivity.
+    + destruct (eval sg a ev e); simpl in H; [|discriminate].
+      destruct (resolve sg a ev p); simpl in H; [|discriminate].
+      destruct (lookup a r); simpl in H; [|discriminate].
+      destruct (apply_write _ _ _); simpl in H; [|discriminate]. inversion H; subst.
+      apply PM.gso. intros E. apply Hx. left. symmetry. exact E.
+    + destruct (eval sg a ev c) as [cv|]; simpl in H; [|discriminate].
+      destruct cv as [| | [|] | | |]; try discriminate.
+      * apply (exec_unchanged s1 _ _ _ _ _ _ H). intros I. apply Hx, expr_vars_acc. right. apply stmt_vars_acc. auto.
+      * apply (exec_unchanged s2 _ _ _ _ _ _ H). intros I. apply Hx, expr_vars_acc. right. apply stmt_vars_acc. auto.
+    + destruct (eval sg a ev e) as [v|]; simpl in H; [|discriminate].
+      apply (exec_arms_unchanged ar _ _ _ _ _ _ _ H). intros I. apply Hx, expr_vars_acc. auto.
+    + destruct (exec sg ev s1 a pend) as [[a1 p1]|] eqn:E1; simpl in H; [|discriminate].
+      rewrite (exec_unchanged s2 _ _ _ _ _ _ H), (exec_unchanged s1 _ _ _ _ _ _ E1); [reflexivity| |];
+        intros I; apply Hx, stmt_vars_acc; auto.
+    + destruct (eval sg a ev c) as [cv|]; simpl in H; [|discriminate].
+      destruct cv; try discriminate. inversion H; reflexivity.
+  - destruct ar as [[s|]|chs s r]; intros sg ev v a pend a' pend' H x Hx; simpl in H, Hx.
+    + apply (exec_unchanged s _ _ _ _ _ _ H), Hx.
+    + inversion H; reflexivity.
+    + destruct (existsb (choice_eqb v) chs).
+      * apply (exec_unchanged s _ _ _ _ _ _ H). intros I. apply Hx, stmt_vars_acc. auto.
+      * apply (exec_arms_unchanged r _ _ _ _ _ _ _ H). intros I. apply Hx, stmt_vars_acc. auto.
+Qed.
+
+(** the alternative a selected assignment evaluates is one of the listed ones *)
+Lemma select_alt_vars v alts others e :
+  select_alt v alts others = Some e ->
+  forall x, In x (expr_vars e []) ->
+  In x (fold_right (fun a acc => expr_vars (snd a) acc)
+                   (match others with Some e => expr_vars e [] | None => [] end) alts).
+Proof.
+  induction alts as [|[chs e0] alts IH]; simpl; intros H x Hx.
+  - destruct others; [inversion H; subst; exact Hx | discriminate].
+  - apply expr_vars_acc. destruct (existsb (choice_eqb v) chs).
+    + inversion H; subst. auto.
+    + right. apply IH; assumption.
+Qed.
+
+Lemma run_conc_agree (P : positive -> Prop) sg ev a b c :
+  (forall x, In x (conc_vars c) -> P x) -> agree P a b ->
+  out_rel P (run_conc sg a ev c) (run_conc sg b ev c).
+Proof.
+  intros H A. destruct c as [r p e|r p s alts others|lbl sens body]; simpl in H |- *.
+  - rewrite <- (eval_agree P sg ev a b e), <- (resolve_agree P sg ev a b p); try exact A;
+      try (intros z0 Hz0; apply H; apply path_vars_acc; auto).
+    destruct (eval sg a ev e); simpl; [|reflexivity].
+    destruct (resolve sg a ev p); simpl; [|reflexivity].
+    destruct (lookup sg r); simpl; [|reflexivity].
+    destruct (apply_write _ _ _); simpl; [|reflexivity]. split; [reflexivity | exact A].
+  - rewrite <- (eval_agree P sg ev a b s); try exact A;
+      [|intros z0 Hz0; apply H, path_vars_acc; right; apply expr_vars_acc; auto].
+    destruct (eval sg a ev s) as [v|]; simpl; [|reflexivity].
+    destruct (select_alt v alts others) as [e|] eqn:S; [|reflexivity].
+    rewrite <- (eval_agree P sg ev a b e), <- (resolve_agree P sg ev a b p); try exact A;
+      try solve [intros z0 Hz0; apply H; apply path_vars_acc; auto].
+    + destruct (eval sg a ev e); simpl; [|reflexivity].
+      destruct (resolve sg a ev p); simpl; [|reflexivity].
+      destruct (lookup sg r); simpl; [|reflexivity].
+      destruct (apply_write _ _ _); simpl; [|reflexivity]. split; [reflexivity | exact A].
+    + intros z0 Hz0. apply H, path_vars_acc. right. apply expr_vars_acc. right.
+      eapply select_alt_vars; eauto.
+  - pose proof (exec_agree body P sg ev a b [] H A) as I.
+    destruct (exec sg ev body a []) as [[a1 p1]|e1]; destruct (exec sg ev body b []) as [[b1 p2]|e2]; simpl in *; try tauto.
+    destruct I as [E A1]. subst. auto.
+Qed.
+
+Lemma run_conc_unchanged sg ev a c a' ws :
+  run_conc sg a ev c = Ok (a', ws) -> forall x, ~ In x (conc_vars c) -> PM.find x a' = PM.find x a.
+Proof.
+  destruct c as [r p e|r p s alts others|lbl sens body]; simpl; intros H x Hx.
+  - destruct (eval sg a ev e); simpl in H; [|discriminate].
+    destruct (resolve sg a ev p); simpl in H; [|discriminate].
+    destruct (lookup sg r); simpl in H; [|discriminate].
+    destruct (apply_write _ _ _); simpl in H; [|discriminate]. inversion H; reflexivity.
+  - destruct (eval sg a ev s); simpl in H; [|discriminate].
+    destruct (select_alt _ _ _); [|discriminate].
+    destruct (eval sg a ev e); simpl in H; [|discriminate].
+    destruct (resolve sg a ev p); simpl in H; [|discriminate].
+    destruct (lookup sg r); simpl in H; [|discriminate].
+    destruct (apply_write _ _ _); simpl in H; [|discriminate]. inversion H; reflexivity.
+  - destruct (exec sg ev body a []) as [[a1 p1]|] eqn:E; simpl in H; [|discriminate].
+    inversion H; subst. apply (exec_unchanged body _ _ _ _ _ _ E), Hx.
+Qed.
+
+(** * One delta cycle does not depend on the order of the concurrent statements *)
+
+Definition delta_equiv (r1 r2 : res (store * store * PS.t)) : Prop :=
+  match r1, r2 with
+  | Ok (s1, v1, e1), Ok (s2, v2, e2) => PM.Equal s1 s2 /\ PM.Equal v1 v2 /\ PS.Equal e1 e2
+  | Err _, Err _ => True
+  | _, _ => False
+  end.
+
+Section Delta.
+Variables (sg : store) (ev : PS.t) (init : bool).
+
+Definition R (vr : store) (cs : prepared) : res (store * list write) := run_all sg vr ev init cs [].
+
+Lemma run_all_acc cs : forall vr acc,
+  run_all sg vr ev init cs acc =
+  match run_all sg vr ev init cs [] with Ok (v, ws) => Ok (v, rev acc ++ ws) | Err e => Err e end.
+Proof.
+  induction cs as [|[sens c] cs IH]; intros vr acc; simpl.
+  - rewrite app_nil_r. reflexivity.
+  - destruct (triggered init ev sens); [|apply IH].
+    destruct (run_conc sg vr ev c) as [[v1 w1]|e]; simpl; [|reflexivity].
+    rewrite (IH v1 (rev_append w1 acc)), (IH v1 (rev_append w1 [])).
+    destruct (run_all sg v1 ev init cs []) as [[v ws]|e]; [|reflexivity].
+    rewrite !rev_append_rev, app_nil_r, rev_app_distr, !rev_involutive, <- app_assoc. reflexivity.
+Qed.
+
+Lemma R_cons sens c cs vr :
+  R vr ((sens, c) :: cs) =
+  if triggered init ev sens then
+    match run_conc sg vr ev c with
+    | Ok (v1, w1) => match R v1 cs with Ok (v, ws) => Ok (v, w1 ++ ws) | Err e => Err e end
+    | Err e => Err e
+    end
+  else R vr cs.
+Proof.
+  unfold R. simpl. destruct (triggered init ev sens); [|reflexivity].
+  destruct (run_conc sg vr ev c) as [[v1 w1]|e]; simpl; [|reflexivity].
+  rewrite run_all_acc. destruct (run_all sg v1 ev init cs []) as [[v ws]|e]; [|reflexivity].
+  rewrite rev_append_rev, app_nil_r, rev_involutive. reflexivity.
+Qed.
+
+Definition same_roots (w1 w2 : list write) : Prop :=
+  forall r, (exists w, In w w1 /\ wroot w = r) <-> (exists w, In w w2 /\ wroot w = r).
+
+Definition out_equiv (r1 r2 : res (store * list write)) : Prop :=
+  match r1, r2 with
+  | Ok (v1, w1), Ok (v2, w2) =>
+      PM.Equal v1 v2 /\ (forall s, res_equiv (commit s w1) (commit s w2)) /\ same_roots w1 w2
+  | Err _, Err _ => True
+  | _, _ => False
+  end.
+
+Lemma out_equiv_refl r : out_equiv r r.
+Proof.
+  destruct r as [[v w]|e]; simpl; [|exact I]. split; [intros y; reflexivity|]. split; [intros s; apply res_equiv_refl|].
+  intros r; tauto.
+Qed.
+
+Lemma out_equiv_trans a b c : out_equiv a b -> out_equiv b c -> out_equiv a c.
+Proof.
+  destruct a as [[v1 w1]|e1], b as [[v2 w2]|e2], c as [[v3 w3]|e3]; simpl; try tauto.
+  intros (A1 & A2 & A3) (B1 & B2 & B3). split; [intros y; rewrite (A1 y); apply B1|]. split.
+  - intros s. eapply res_equiv_trans; [apply A2 | apply B2].
+  - intros r. rewrite (A3 r). apply B3.
+Qed.
+
+Definition all_vars (x : positive) : Prop := True.
+
+Lemma R_equal cs : forall v1 v2, PM.Equal v1 v2 -> out_rel all_vars (R v1 cs) (R v2 cs).
+Proof.
+  induction cs as [|[sens c] cs IH]; intros v1 v2 E.
+  - unfold R; simpl. split; [reflexivity | intros x _; apply E].
+  - rewrite !R_cons. destruct (triggered init ev sens); [|apply IH, E].
+    pose proof (run_conc_agree all_vars sg ev v1 v2 c (fun _ _ => I) (fun x _ => E x)) as C.
+    destruct (run_conc sg v1 ev c) as [[a1 w1]|e1]; destruct (run_conc sg v2 ev c) as [[a2 w2]|e2]; simpl in C; try tauto.
+    destruct C as [Ew A]. subst w2.
+    specialize (IH a1 a2 (fun x => A x I)).
+    destruct (R a1 cs) as [[b1 u1]|f1]; destruct (R a2 cs) as [[b2 u2]|f2]; simpl in *; try tauto.
+    destruct IH as [Eu B]. subst. auto.
+Qed.
+
+Lemma R_cons_congr sc l1 l2 :
+  (forall vr, out_equiv (R vr l1) (R vr l2)) -> forall vr, out_equiv (R vr (sc :: l1)) (R vr (sc :: l2)).
+Proof.
+  intros H vr. destruct sc as [sens c]. rewrite !R_cons. destruct (triggered init ev sens); [|apply H].
+  destruct (run_conc sg vr ev c) as [[v1 w1]|e]; [|exact I].
+  specialize (H v1). destruct (R v1 l1) as [[a u1]|f1]; destruct (R v1 l2) as [[b u2]|f2]; simpl in *; try tauto.
+  destruct H as (E & C & S). split; [exact E|]. split.
+  - intros s. apply commit_prefix. exact C.
+  - intros r. split; intros (w & Hin & Hr); apply in_app_or in Hin; destruct Hin as [Hin|Hin].
+    + exists w. split; [apply in_or_app; left; exact Hin | exact Hr].
+    + destruct (proj1 (S r)) as (w' & Hin' & Hr'); [exists w; auto|]. exists w'. split; [apply in_or_app; right; exact Hin' | exact Hr'].
+    + exists w. split; [apply in_or_app; left; exact Hin | exact Hr].
+    + destruct (proj2 (S r)) as (w' & Hin' & Hr'); [exists w; auto|]. exists w'. split; [apply in_or_app; right; exact Hin' | exact Hr'].
+Qed.
+
+Lemma R_prefix_congr p l1 l2 :
+  (forall vr, out_equiv (R vr l1) (R vr l2)) -> forall vr, out_equiv (R vr (p ++ l1)) (R vr (p ++ l2)).
+Proof. induction p as [|sc p IH]; intros H; [exact H|]. simpl. apply R_cons_congr, IH, H. Qed.
+
+(** two statements that assign disjoint scalars and share no variable *)
+Definition indep (cx cy : conc) : Prop :=
+  (stmts_disjoint (conc_writes cx) (conc_writes cy) = true \/ stmts_disjoint (conc_writes cy) (conc_writes cx) = true)
+  /\ (forall x, In x (conc_vars cx) -> In x (conc_vars cy) -> False).
+
+Lemma indep_sym a b : indep a b -> indep b a.
+Proof. intros [[H|H] V]; split; auto; intros x Hx Hy; apply (V x); assumption. Qed.
+
+Lemma indep_blocks cx cy vr1 vr2 vx wx vy wy :
+  indep cx cy -> run_conc sg vr1 ev cx = Ok (vx, wx) -> run_conc sg vr2 ev cy = Ok (vy, wy) ->
+  blocks_disjoint wx wy.
+Proof.
+  intros [[D|D] _] Hx Hy.
+  - eapply prov_disjoint; [exact D | eapply run_conc_prov; eauto | eapply run_conc_prov; eauto].
+  - apply blocks_disjoint_sym. eapply prov_disjoint; [exact D | eapply run_conc_prov; eauto | eapply run_conc_prov; eauto].
+Qed.
+
+Lemma R_swap sx cx sy cy rest : indep cx cy ->
+  forall vr, out_equiv (R vr ((sx, cx) :: (sy, cy) :: rest)) (R vr ((sy, cy) :: (sx, cx) :: rest)).
+Proof.
+  intros I vr. destruct I as [D V].
+  assert (Ind : indep cx cy) by (split; assumption).
+  rewrite (R_cons sx cx ((sy, cy) :: rest) vr), (R_cons sy cy ((sx, cx) :: rest) vr).
+  destruct (triggered init ev sx) eqn:Tx; destruct (triggered init ev sy) eqn:Ty.
+  2:{ (* only x *) rewrite (R_cons sx cx rest vr), Tx.
+      destruct (run_conc sg vr ev cx) as [[vx wx]|e]; [|exact I]. rewrite (R_cons sy cy rest vx), Ty. apply out_equiv_refl. }
+  2:{ (* only y *) rewrite (R_cons sy cy rest vr), Ty.
+      destruct (run_conc sg vr ev cy) as [[vy wy]|e]; [|exact I]. rewrite (R_cons sx cx rest vy), Tx. apply out_equiv_refl. }
+  2:{ rewrite (R_cons sy cy rest vr), Ty, (R_cons sx cx rest vr), Tx. apply out_equiv_refl. }
+  (* both run *)
+  destruct (run_conc sg vr ev cx) as [[vx wx]|ex] eqn:Hx; destruct (run_conc sg vr ev cy) as [[vy wy]|ey] eqn:Hy.
+  - (* x and y succeed from vr *)
+    assert (Ay : agree (fun z => In z (conc_vars cy)) vr vx).
+    { intros z Hz. symmetry. apply (run_conc_unchanged _ _ _ _ _ _ Hx). intros Hzx. apply (V z); assumption. }
+    assert (Ax : agree (fun z => In z (conc_vars cx)) vr vy).
+    { intros z Hz. symmetry. apply (run_conc_unchanged _ _ _ _ _ _ Hy). intros Hzy. apply (V z); assumption. }
+    pose proof (run_conc_agree _ sg ev vr vx cy (fun _ H => H) Ay) as Cy. rewrite Hy in Cy.
+    pose proof (run_conc_agree _ sg ev vr vy cx (fun _ H => H) Ax) as Cx. rewrite Hx in Cx.
+    rewrite (R_cons sy cy rest vx), Ty, (R_cons sx cx rest vy), Tx.
+    destruct (run_conc sg vx ev cy) as [[vxy wy']|] eqn:Hxy; simpl in Cy; [|contradiction].
+    destruct (run_conc sg vy ev cx) as [[vyx wx']|] eqn:Hyx; simpl in Cx; [|contradiction].
+    destruct Cy as [<- Ayy]. destruct Cx as [<- Axx].
+    assert (E : PM.Equal vxy vyx).
+    { intros z. destruct (in_dec Pos.eq_dec z (conc_vars cx)) as [Zx|Zx].
+      - assert (Zy : ~ In z (conc_vars cy)) by (intros Zy; apply (V z); assumption).
+        rewrite (run_conc_unchanged _ _ _ _ _ _ Hxy z Zy). apply Axx, Zx.
+      - destruct (in_dec Pos.eq_dec z (conc_vars cy)) as [Zy|Zy].
+        + rewrite (run_conc_unchanged _ _ _ _ _ _ Hyx z Zx). symmetry. apply Ayy, Zy.
+        + rewrite (run_conc_unchanged _ _ _ _ _ _ Hxy z Zy), (run_conc_unchanged _ _ _ _ _ _ Hx z Zx),
+            (run_conc_unchanged _ _ _ _ _ _ Hyx z Zx), (run_conc_unchanged _ _ _ _ _ _ Hy z Zy). reflexivity. }
+    pose proof (R_equal rest vxy vyx E) as Q.
+    destruct (R vxy rest) as [[a u1]|f1]; destruct (R vyx rest) as [[b u2]|f2]; simpl in Q |- *; try tauto.
+    destruct Q as [<- Q]. split; [intros z; apply Q; exact I0 || exact I|]. split.
+    + intros s. apply commit_swap_blocks. eapply indep_blocks; eauto.
+    + intros r. split; intros (w & Hin & Hr); exists w; (split; [|exact Hr]);
+        repeat (apply in_app_or in Hin; destruct Hin as [Hin|Hin]); repeat rewrite in_app_iff; auto.
+  - (* y fails from vr, hence also after x *)
+    assert (Ay : agree (fun z => In z (conc_vars cy)) vr vx).
+    { intros z Hz. symmetry. apply (run_conc_unchanged _ _ _ _ _ _ Hx). intros Hzx. apply (V z); assumption. }
+    pose proof (run_conc_agree _ sg ev vr vx cy (fun _ H => H) Ay) as Cy. rewrite Hy in Cy.
+    rewrite (R_cons sy cy rest vx), Ty.
+    destruct (run_conc sg vx ev cy) as [[? ?]|]; simpl in Cy; [contradiction | exact I].
+  - (* x fails from vr, hence also after y *)
+    assert (Ax : agree (fun z => In z (conc_vars cx)) vr vy).
+    { intros z Hz. symmetry. apply (run_conc_unchanged _ _ _ _ _ _ Hy). intros Hzy. apply (V z); assumption. }
+    pose proof (run_conc_agree _ sg ev vr vy cx (fun _ H => H) Ax) as Cx. rewrite Hx in Cx.
+    rewrite (R_cons sx cx rest vy), Tx.
+    destruct (run_conc sg vy ev cx) as [[? ?]|]; simpl in Cx; [contradiction | exact I].
+  - exact I.
+Qed.
+
+Definition tagged_indep (l : list (nat * conc)) : Prop :=
+  forall i j a b, In (i, a) l -> In (j, b) l -> i <> j -> indep a b.
+
+Definition prep (l : list (nat * conc)) : prepared := prepare (map snd l).
+
+Lemma prep_app l1 l2 : prep (l1 ++ l2) = prep l1 ++ prep l2.
+Proof. unfold prep, prepare. rewrite !map_app. reflexivity. Qed.
+
+Lemma R_perm_tagged l l' :
+  NoDup (map fst l) -> tagged_indep l -> Permutation l l' ->
+  forall vr, out_equiv (R vr (prep l)) (R vr (prep l')).
+Proof.
+  intros ND TD P. apply Permutation_Permutation_transp in P. revert ND TD.
+  induction P as [l | x y l1 l2 | l1 l2 l3 P1 IH1 P2 IH2]; intros ND TD vr.
+  - apply out_equiv_refl.
+  - rewrite !prep_app. apply R_prefix_congr. intros vr'.
+    destruct x as [i a], y as [j b]. unfold prep, prepare. simpl.
+    apply R_swap. apply (TD j i b a).
+    + apply in_or_app. right. left. reflexivity.
+    + apply in_or_app. right. right. left. reflexivity.
+    + rewrite map_app in ND. simpl in ND. apply NoDup_remove_2 in ND.
+      intros E. subst j. apply ND. apply in_or_app. right. left. reflexivity.
+  - assert (P1' : Permutation l1 l2) by (apply Permutation_Permutation_transp; exact P1).
+    eapply out_equiv_trans; [apply IH1; assumption|]. apply IH2.
+    + eapply Permutation_NoDup; [apply Permutation_map, P1' | exact ND].
+    + intros i j a b Hi Hj. apply TD; eapply Permutation_in; try (apply Permutation_sym; exact P1'); assumption.
+Qed.
+
+Definition differs (old new : store) (r : positive) : bool :=
+  match PM.find r old, PM.find r new with
+  | Some a, Some b => negb (value_eqb a b)
+  | _, _ => false
+  end.
+
+Lemma changed_spec old new ws : forall acc r,
+  PS.In r (changed old new ws acc) <->
+  PS.In r acc \/ ((exists w, In w ws /\ wroot w = r) /\ differs old new r = true).
+Proof.
+  induction ws as [|[[root p] x] ws IH]; intros acc r; simpl.
+  - split; [auto | intros [H|[(w & [] & _) _]]; exact H].
+  - rewrite IH. fold (differs old new root).
+    split.
+    + intros [H|[(w & Hin & Hr) Hd]].
+      * destruct (differs old new root) eqn:Dr.
+        -- apply PS.add_spec in H. destruct H as [E|H]; [|auto]. subst r.
+           right. split; [|exact Dr]. exists (root, p, x). split; [left; reflexivity | reflexivity].
+        -- auto.
+      * right. split; [|exact Hd]. exists w. auto.
+    + intros [H|[(w & [E|Hin] & Hr) Hd]].
+      * left. destruct (differs old new root); [apply PS.add_spec; auto | exact H].
+      * subst w. unfold wroot in Hr. simpl in Hr. subst r. left. rewrite Hd. apply PS.add_spec. auto.
+      * right. split; [|exact Hd]. exists w. auto.
+Qed.
+
+Lemma delta_out cs cs' vr :
+  out_equiv (R vr cs) (R vr cs') -> delta_equiv (delta cs sg vr ev init) (delta cs' sg vr ev init).
+Proof.
+  unfold delta, R.
+  destruct (run_all sg vr ev init cs []) as [[v1 w1]|e1]; destruct (run_all sg vr ev init cs' []) as [[v2 w2]|e2];
+    simpl; try tauto.
+  intros (E & C & S). specialize (C sg).
+  destruct (commit sg w1) as [s1|]; destruct (commit sg w2) as [s2|]; simpl in *; try tauto.
+  split; [exact C|]. split; [exact E|].
+  intros r. rewrite !changed_spec.
+  assert (D : differs sg s1 r = differs sg s2 r) by (unfold differs; rewrite (C r); reflexivity).
+  rewrite D, (S r). tauto.
+Qed.
+
+End Delta.
+
+(** ** from the static check to independence of any two statements *)
+
+Lemma forallb_map_eq {A B} (f : A -> B) (p : B -> bool) l : forallb p (map f l) = forallb (fun x => p (f x)) l.
+Proof. induction l as [|x l IH]; simpl; [reflexivity | rewrite IH; reflexivity]. Qed.
+
+Lemma pairwise_map {A B} (f : A -> B) (P : B -> B -> bool) l :
+  pairwise P (map f l) = pairwise (fun a b => P (f a) (f b)) l.
+Proof. induction l as [|x l IH]; simpl; [reflexivity | rewrite forallb_map_eq, IH; reflexivity]. Qed.
+
+Lemma vars_indep d a b :
+  conc_vars_local d a = true -> conc_vars_local d b = true -> same_label a b = false ->
+  forall x, In x (conc_vars a) -> In x (conc_vars b) -> False.
+Proof.
+  intros La Lb S x Ha Hb.
+  destruct a as [r p e|r p s alts others|la sa ba].
+  - unfold conc_vars_local in La. destruct (conc_vars (CAssign r p e)); [destruct Ha | simpl in La; discriminate].
+  - unfold conc_vars_local in La. destruct (conc_vars (CSelect r p s alts others)); [destruct Ha | simpl in La; discriminate].
+  - destruct b as [r p e|r p s alts others|lb sb bb].
+    + unfold conc_vars_local in Lb. destruct (conc_vars (CAssign r p e)); [destruct Hb | simpl in Lb; discriminate].
+    + unfold conc_vars_local in Lb. destruct (conc_vars (CSelect r p s alts others)); [destruct Hb | simpl in Lb; discriminate].
+    + unfold conc_vars_local in La, Lb. rewrite forallb_forall in La, Lb.
+      specialize (La x Ha). specialize (Lb x Hb).
+      destruct (var_proc d x) as [l|]; [|discriminate].
+      apply Pos.eqb_eq in La. apply Pos.eqb_eq in Lb. subst. simpl in S. rewrite Pos.eqb_refl in S. discriminate.
+Qed.
+
+Lemma same_label_sym a b : same_label a b = same_label b a.
+Proof. destruct a, b; simpl; auto. apply Pos.eqb_sym. Qed.
+
+Lemma tag_from_in {A} (l : list A) k i a : In (i, a) (tag_from k l) -> In a l.
+Proof.
+  intros H. assert (X : In a (map snd (tag_from k l))) by (apply in_map_iff; exists (i, a); auto).
+  rewrite tag_from_snd in X. exact X.
+Qed.
+
+Lemma single_driver_indep d : single_driver d = true -> tagged_indep (tag_from 0 d.(d_conc)).
+Proof.
+  unfold single_driver. intros H.
+  apply andb_prop in H. destruct H as [H HL]. apply andb_prop in H. destruct H as [H HV].
+  apply andb_prop in H. destruct H as [HD _].
+  unfold drivers_disjoint in HD. rewrite pairwise_map in HD. unfold labels_distinct in HL.
+  unfold vars_local in HV. rewrite forallb_forall in HV.
+  assert (Lt : forall i j a b, In (i, a) (tag_from 0 (d_conc d)) -> In (j, b) (tag_from 0 (d_conc d)) -> i < j -> indep a b).
+  { intros i j a b Hi Hj L. split.
+    - left. apply (tag_from_pairwise _ _ 0 HD i j a b Hi Hj L).
+    - apply (vars_indep d); [apply HV; eapply tag_from_in; eauto | apply HV; eapply tag_from_in; eauto |].
+      pose proof (tag_from_pairwise _ _ 0 HL i j a b Hi Hj L) as X. apply negb_true_iff in X. exact X. }
+  intros i j a b Hi Hj Hne. destruct (Nat.lt_ge_cases i j) as [L|G].
+  - eapply Lt; eauto.
+  - apply indep_sym. eapply Lt; eauto. lia.
+Qed.
+
+(** [single_driver_sound]: under [single_driver d = true] one delta cycle - the variable store
+    threaded through the processes, the committed signal store and the set of changed signals -
+    does not depend on the order in which the concurrent statements are listed.  Stores are
+    compared extensionally; two runs that both end in a run-time error are identified. *)
+Theorem single_driver_sound d cs' sg vr ev init :
+  single_driver d = true -> Permutation d.(d_conc) cs' ->
+  delta_equiv (delta (prepare d.(d_conc)) sg vr ev init) (delta (prepare cs') sg vr ev init).
+Proof.
+  intros S P. apply delta_out.
+  rewrite <- (tag_from_snd d.(d_conc) 0) in P.
+  apply Permutation_sym in P. apply Permutation_map_inv in P. destruct P as (l' & E & P).
+  rewrite <- (tag_from_snd d.(d_conc) 0) at 1. rewrite E.
+  apply (R_perm_tagged sg ev init); [apply tag_from_nodup | apply single_driver_indep, S | exact P].
+Qed.
+
+(** non-vacuity: two processes and two concurrent assignments to disjoint scalars of one signal *)
+Definition example_design : design :=
+  {| d_sigs := [ {| sd_id := 1; sd_ty := TLogic; sd_dir := DIn; sd_init := VL false; sd_hasdef := false |};
+                 {| sd_id := 2; sd_ty := TVec KSlv 4; sd_dir := DOut; sd_init := VV KSlv 4 0; sd_hasdef := false |};
+                 {| sd_id := 3; sd_ty := TLogic; sd_dir := DLocal; sd_init := VL false; sd_hasdef := false |} ];
+     d_vars := [ {| vd_id := 1; vd_proc := 1; vd_ty := TLogic; vd_init := VL false; vd_hasdef := false |} ];
+     d_conc := [ CProc 1 [1%positive] (SSeq (SVar 1 [] (ESig 1)) (SSig 3 [] (EVar 1)));
+                 CAssign 2 [SelSlice 3 2] (ELit (VV KSlv 2 1));
+                 CAssign 2 [SelIdx (ELit (VI 1))] (ESig 3) ];
+     d_clk := None; d_inputs := [1%positive]; d_outputs := [2%positive] |}.
+
+Definition with_conc (d : design) (cs : list conc) : design :=
+  {| d_sigs := d.(d_sigs); d_vars := d.(d_vars); d_conc := cs; d_clk := d.(d_clk);
+     d_inputs := d.(d_inputs); d_outputs := d.(d_outputs) |}.
+
+Example single_driver_examples :
+  single_driver example_design = true /\ single_driver_roots example_design = false
+  (* a second driver of signal 3 that also reads the process variable *)
+  /\ single_driver (with_conc example_design (CAssign 3 [] (EVar 1) :: example_design.(d_conc))) = false
+  (* overlapping scalars *)
+  /\ drivers_disjoint (with_conc example_design [CAssign 2 [SelSlice 3 1] (ELit (VV KSlv 3 1)); CAssign 2 [SelIdx (ELit (VI 1))] (ESig 3)]) = false
+  (* run-time index next to another statement *)
+  /\ drivers_disjoint (with_conc example_design [CAssign 2 [SelIdx (EF1 FToInteger (ESig 2))] (ESig 3); CAssign 2 [SelIdx (ELit (VI 1))] (ESig 3)]) = false
+  (* an [in] port is assigned *)
+  /\ no_in_port_assigned (with_conc example_design [CAssign 1 [] (ESig 3)]) = false.
 Proof. vm_compute. repeat split. Qed.
 
 Lemma single_driver_nonvacuous : exists d, single_driver d = true /\ single_driver_roots d = false.
-Proof.
-  eexists. pose proof single_driver_roots_example as H. cbv zeta in H. destruct H as (A & B & _).
-  split; [exact A | exact B].
-Qed.
+Proof. exists example_design. vm_compute. split; reflexivity. Qed.
